@@ -12,2312 +12,2125 @@ Definition show_fres (r : fres) : string :=
   end.
 Definition check (rs : list rune) : string := digest (show_fres (format_res rs)).
 Definition full (rs : list rune) : string := show_fres (format_res rs).
-Eval vm_compute in ("<<<M3641>>>" ++ check (runes_of_ascii "// top
-options
-    // c0
-{ // c1
-LittleEndian
-    // c2
-= // c3a
-  // c3b
-false
-    // c4
-; // c5
-FixedStringPadFromLeft // c6a
-  // c6b
-= false // c8
-; // c9
-FixedStringPadChar // c10
-=
-    // c11
-' '
-    // c12
-; } // c14
-packet // c15
-Fill // c16a
-  // c16b
-{ // c17a
-  // c17b
-uint16 // c18a
-  // c18b
-Qty // c19a
-  // c19b
-, uint64 // c21
-clOrdID , repeat // c24a
-  // c24b
-i64 // c25
-Flags
-    // c26
-,
-    // c27
-} packet Ack // c30a
-  // c30b
+Eval vm_compute in ("<<<M1066>>>" ++ check (runes_of_ascii "MetaData	pack
+{  } MetaData	trueish
 {
-    // c31
-zchar[ 7 // c33
-] clOrdID // c35
-, // c36
-u64 // c37a
-  // c37b
-lastPx , // c39
-char[] // c40a
-  // c40b
-Note , // c42
-repeat // c43a
-  // c43b
-Fill
-    // c44
-, // c45a
-  // c45b
-int32 // c46a
-  // c46b
-count
-    // c47
-, // c48
-}
-    // c49
-packet // c50
-Quote { u8 venue , // c55a
-  // c55b
-InRef40 {
-    // c57
-char[] Qty // c59a
-  // c59b
-, // c60a
-  // c60b
-}
-    // c61
-, zchar[ // c63
-5
-    // c64
-] Flags // c66
-, // c67a
-  // c67b
-@rightPad // c68a
-  // c68b
-( // c69a
-  // c69b
-'\x00' // c70
-) // c71
-char[ // c72a
-  // c72b
-12 ] // c74a
-  // c74b
-msgKind ,
-    // c76
-} // c77a
-  // c77b
-packet Logout
-    // c79
-{
-    // c80
-InSym79
-    // c81
-{
-    // c82
-int32 Qty , // c85a
-  // c85b
-Fill // c86a
-  // c86b
-, char[ 3
-    // c89
-] // c90
-x ,
-    // c92
-repeat InNote29 { // c95a
-  // c95b
-i16 price
-    // c97
-, // c98a
-  // c98b
-Ack // c99
-, // c100a
-  // c100b
-f64 // c101
-x // c102a
-  // c102b
-, // c103
-zchar[ // c104
-8 // c105
-] count // c107
-, // c108a
-  // c108b
-}
-    // c109
-, // c110
-}
-    // c111
-,
-    // c112
-} root // c114a
-  // c114b
-packet // c115
-Logon // c116a
-  // c116b
-{ zchar[ 1 // c119
-] sym // c121a
-  // c121b
-, u32
-    // c123
-count , u16 // c126a
-  // c126b
-tag7
-    // c127
-@lengthOf( // c128a
-  // c128b
-Body
-    // c129
-) // c130a
-  // c130b
-, match // c132a
-  // c132b
-count // c133
-as Body // c135a
-  // c135b
-{
-    // c136
-[ // c137a
-  // c137b
-122 , // c139a
-  // c139b
-152
-    // c140
-]
-    // c141
-:
-    // c142
-Ack
-    // c143
-, 118 // c145a
-  // c145b
-:
-    // c146
-Logout // c147a
-  // c147b
-, // c148
-61 : // c150a
-  // c150b
-Quote
-    // c151
-, 161 // c153a
-  // c153b
-: // c154
-Fill // c155
-, // c156
-} , // c158a
-  // c158b
-u32 // c159
-Acct @calculatedFrom( // c161
-""CRC32"" // c162a
-  // c162b
-)
-    // c163
-, } // c165a
-  // c165b
-")).
-Eval vm_compute in ("<<<M3777>>>" ++ check (runes_of_ascii "packet metadata {
-    zchar[10] i64_ `say ""hi""`,
-    repeat Header uint8x,
-    @lengthOf(falsey)
-    int8 _x @calculatedFrom(""x y"") `{ , }`,
-    stringy metadata `a\`,// " ++ [128512]%N ++ runes_of_ascii " emoji
-    @lengthOf(Packet)
-    i64_ {
-        match crc as Header {
-            [0, 0123456789] : Foo,
-            ""abc"" : pack,
-        },
-        match int as charz {
-            1 : packetx,
-            7 : MetaDataX,
-            // " ++ [128512]%N ++ runes_of_ascii " emoji
-            7 : a1,
-            007 : zchar,
-            ""CRC32"" : stringy,
-            [""\" ++ [233]%N ++ runes_of_ascii """, ""CRC32""] : i8i8,
-        },
-        pack `doc`,
-        tag {
-            _x @calculatedFrom(""CRC32"") `
-                        `,
-            repeat asx `{ , }`,
-            i32 _x @calculatedFrom(""\n"") `u8 x,`,
-        },
-    },
-    f32a @lengthOf(chars),
-    string Packet,
-    @leftPad(' ')
-    @lengthOf(u8x)
-    // trailing space 
-    a1 @calculatedFrom(""x y"") `doc`,
-    options1,
-    body `{ , }`,
-}
-
-MetaData Foo {
-    uint8 Z9_ `{ , }`,
-}
-
-packet Header {
-    pack {
-        // trailing space 
-        leftPad {
-            u128 i64_,
-            zchar[7] i64_ @calculatedFrom(""packet"") `line1
-                        line2`,//
-            metadata Logon,
-            char[10] asx @lengthOf(uint8x) `it's`,
-        },
-    },
-    @calculatedFrom(""a\\"")
-    Logon @lengthOf(uint8x) `
-        `,
-    int64 msg_type,
-    metadata _x,
-    @leftPad()
-    trueish {
-        Header {
-            //x
-            // `tick` ""quote"" 'q'
-            uint8x {
-                char[0123456789] leftPad @calculatedFrom(""" ++ [233]%N ++ runes_of_ascii "t" ++ [233]%N ++ runes_of_ascii """) `" ++ [28040; 24687; 31867; 22411]%N ++ runes_of_ascii "`,
-            },// " ++ [128512]%N ++ runes_of_ascii " emoji
-            char[1] asx @calculatedFrom(""it's""),
-            roots,
-        },
-    },
-    zchar[255] Packet,// `tick` ""quote"" 'q'
-    repeat i8i8,
-    repeat float64 u8x,
-    @calculatedFrom(""" ++ [233]%N ++ runes_of_ascii "t" ++ [233]%N ++ runes_of_ascii """)
-    asx @calculatedFrom(""a\""b""),
-}
-
-MetaData roots {
-}")).
-Eval vm_compute in ("<<<M96>>>" ++ check (runes_of_ascii "root packet Logon {
-    zchar[ 65535
-]
-uint8x ,@leftPad ()repeat f32
-    Packet , @leftPad ( ' '
-//x
-//	t
-) match i8i8 as  body// a // b
-{ 65535 : MetaDataX ,
-    007
-    : Packet
-}
-,  @calculatedFrom(""packet"")uint8x ,Foo@lengthOf( asx
-    //	t
-    )
-, i64 int , //
-@leftPad ( ' ' ) repeat rootA {
-int32 zchar
-,match stringy  as MetaDataX
-    { [ """ ++ [28040; 24687]%N ++ runes_of_ascii """  , 10 ,42 , ""a\""b"" ,	42 ,7]: msg_type ,[
-    42 ]	:stringy , ""a\\"" :
-Header  255 : calculatedFrom
-    //	t
-    ,
-// a // b
-/// triple
-[ 007// " ++ [27880; 37322]%N ++ runes_of_ascii "
-]
-    :
-/// triple
-//x
-MetaDataX , ""a\""b""
-    //	t
-    ://
-stringy // " ++ [128512]%N ++ runes_of_ascii " emoji
-, } , char[ 007  ] int @lengthOf(
-    o
-    )`" ++ [233]%N ++ runes_of_ascii "` // `tick` ""quote"" 'q'
-,
-// trailing space 
-//x
-}	, @leftPad (
-//
-// @lengthOf(
-)@lengthOf(
-    metadata )match
-asx
-as leftPad { ""x y""
-:
-matchKey // packet A { u8 x, }
-} // " ++ [27880; 37322]%N ++ runes_of_ascii "
-,
-    repeat  leftPad `say ""hi""` ,char[//	t
-65535// c
-] // a // b
-Packet , } root packet // a // b
-x_y_z { match uint8x as As
-    { [0123456789 ] : T
-    65535
-    :	x_y_z ""\n""
-    //
-    : u,
-    4294967296 :  Packet	[ 65535  ]: T ,
-    255 : uint8x },int32 Packet  `tab	here` , @calculatedFrom( """"
-) @calculatedFrom(
-    ""a\\"" ) u64 repeatCount
-    @calculatedFrom( """" ) , Header
-zchar
-`doc` ,
-match
-_x as	metadata // " ++ [128512]%N ++ runes_of_ascii " emoji
-{ [ 255 ,""1""	] : Logon [
-""" ++ [233]%N ++ runes_of_ascii "t" ++ [233]%N ++ runes_of_ascii """ ,00, 65535
-    ,	7 , 42	, 00	]
-:
-packetx , 4294967296 : stringy
-    //	t
-    ,}, char[00
-    ] tag `doc` ,@lengthOf(
-int )
-string u
-    ,  @tag( 007 ) int16 stringy , float64
-    crc, @calculatedFrom( ""x y""  ) repeat u16 f32a ,}options  {	u128= ""CRC32"" options1 = // packet A { u8 x, }
-false u8x= ""`tick`"";}")).
-Eval vm_compute in ("<<<M972>>>" ++ check (runes_of_ascii "packet u/// triple
-{
-@calculatedFrom( ""1"" ) match o as float{
-""x y""	:
-    u
-    , }
-    ,match packetx as
-    f32a {
-// a // b
-// c
-[ 4294967296 ,3] :
-x , 10
-: i8i8, """ ++ [233]%N ++ runes_of_ascii "t" ++ [233]%N ++ runes_of_ascii """ : _x [
-    // `tick` ""quote"" 'q'
-    ""a	b""
-, """ ++ [28040; 24687]%N ++ runes_of_ascii """
-    //	t
-    ,
-    ""1"",""a\\"" ,42 , 4294967296
-    , ""a	b""] :
-    Header ,//
-65535 : i8i8 , 0123456789 :repeatCount ,
-    }
-    ,
-repeat
-stringy { //	t
-char[	0
-]
-Logon	`{ , }`, Pad `a\`
-, asx
-    BodyLength`line1
-line2` ,
-    repeat string
-    Z9_, } ,
-    f32a metadata `" ++ [28040; 24687; 31867; 22411]%N ++ runes_of_ascii "`
-, @calculatedFrom(
-""a\""b"" )
-    metadata { Z9_ @calculatedFrom( """ ++ [233]%N ++ runes_of_ascii "t" ++ [233]%N ++ runes_of_ascii """ ) ,  repeat zchar[  1 ] //
-options1 `say ""hi""` , i8 options1,
-    roots
-{string packetx ,
-repeat char[//x
-65535 ] x // trailing space 
-,
-    // c
-    }
-, } , int8 matchKey
-    ,
-metadata @lengthOf( roots )
+    string o,
+u // @lengthOf(
+roots , Header calculatedFrom
+`doc` , zchar[42] metadata `u8 x,`
+    , Packet lengthOf , u128 lengthOf ,} root packet Logon{ repeat/// triple
+zchar[ 7 ]
 // packet A { u8 x, }
-//	t
-,  string u// " ++ [27880; 37322]%N ++ runes_of_ascii "
-@lengthOf(
-    As
-)
-    , } packet //x
-x_y_z {
-    // " ++ [128512]%N ++ runes_of_ascii " emoji
-    len o, match
-string_ as
-Foo {
-[
-    255
-    ,
-""" ++ [233]%N ++ runes_of_ascii "t" ++ [233]%N ++ runes_of_ascii """
-    //
-    , 255 , 007 , ""a\""b""
-    // " ++ [27880; 37322]%N ++ runes_of_ascii "
-    , ""abc""  ]
-: a1
-    // @lengthOf(
-    ,""CRC32""
-:matchKey } ,@lengthOf(
-int )	@calculatedFrom(//	t
-""1""// " ++ [27880; 37322]%N ++ runes_of_ascii "
-)
-@calculatedFrom(//
-""it's"") char[ 0 ]
-matchKey @calculatedFrom(
-""`tick`"" )
-    , match a1
-as Z9_
-{ [ ""CRC32"" , 65535 ] :
-    x [ 0123456789 ,  """ ++ [233]%N ++ runes_of_ascii "t" ++ [233]%N ++ runes_of_ascii """]	: packetx ,
-    ""packet"" :
-//	t
-// a // b
-msg_type , 10 : // " ++ [27880; 37322]%N ++ runes_of_ascii "
-o// " ++ [128512]%N ++ runes_of_ascii " emoji
-, }, @lengthOf( repeatCount )
-    f32 As , @tag( 3
-    )
-    string_, } 	 ")).
-Eval vm_compute in ("<<<M4142>>>" ++ check (runes_of_ascii "packet Packet
-	{  MetaDataX
-
-{ 
-        // " ++ [128512]%N ++ runes_of_ascii " emoji
-// trailing space 
-zchar[
-// @lengthOf(
-  255 ]
-
-    crc @calculatedFrom(
-
-    ""`tick`""
-)
-`doc`,	// c
-}  ,
-	u32
-As
-
-    `
-`
-
-,
-	@lengthOf( chars
-) f64
-leftPad `// not a comment`,  repeat char[
-3 ]len `doc`
-
-    ,
-match
-    u8x
-
-as
-	chars{	4294967296 
-:
-	f32a
-
-    ,
-
-    [
-
-    255	,
-4294967296]: string_
-    0: chars
-
-,	// packet A { u8 x, }
-
-""a\""b""
-    :	options1 
-7
-
-    :
-	falsey
-,  } ,
-	@lengthOf(  // c
-  len 
-  // `tick` ""quote"" 'q'
-    // @lengthOf(
-  ) repeat
-char[
-	10 
-    // " ++ [27880; 37322]%N ++ runes_of_ascii "
-
-	] Header`crlf
-line` ,	// " ++ [27880; 37322]%N ++ runes_of_ascii "
-rootA  asx 
-`two words`
-
-    ,
-
-}
-
-packet	//x
-  Packet
-	{	@tag( //
-	00
-
-) u16
-	asx ,
-
-    @calculatedFrom(""a\""b""
-	)
-	charz
-@lengthOf( a1
-
-)
-,
-@lengthOf(
-	asx )
-	repeat string falsey , u32
-options1
-
-    @lengthOf(
-packetx
-)	`it's`	//x
-	  ,
-}
-
-packet	metadata
-    {
-
-int16  i8i8 ,
-	i32
-	tag 
-    //x
-    //
-  `line1
-line2`
-    ,
-	@calculatedFrom(	""a\\"" 
-    //x
-	//	t
-    )	// trailing space 
-  @lengthOf(
-repeatCount
-    ) MetaDataX{
-
-    repeat
-    x_y_z, } , lengthOf
-tag
-
-`" ++ [233]%N ++ runes_of_ascii "`,
-
-}MetaData//	t
-		Foo{
-
-    body chars 
-,	char[]
-
-asx
-
-    `// not a comment` , char
-u8x
-//
-  // a // b
-    ,
-x trueish
-`crlf
-line`
-    ,	char[]  options1
-`u8 x,` ,
-	}
-")).
-Eval vm_compute in ("<<<M3624>>>" ++ check (runes_of_ascii "// top
-options
-    // c0
-{
-    // c1
-LittleEndian // c2
-= true // c4a
-  // c4b
-;
-    // c5
-StringPrefixLenType = // c7
-u16 // c8a
-  // c8b
-; // c9
-ArrayPrefixLenType // c10a
-  // c10b
-= u64 // c12a
-  // c12b
-;
-    // c13
-} // c14a
-  // c14b
-packet // c15
-Fill // c16a
-  // c16b
-{
-    // c17
-} // c18
-packet
-    // c19
-Logon // c20a
-  // c20b
-{ // c21a
-  // c21b
-repeat // c22
-char[ 3
-    // c24
-] // c25a
-  // c25b
-Tail // c26
-,
-    // c27
-zchar[ // c28
-6 ]
-    // c30
-venue
-    // c31
-, // c32a
-  // c32b
-repeat string // c34a
-  // c34b
-Side2
-    // c35
-,
-    // c36
-} // c37a
-  // c37b
-root packet // c39
-Cancel // c40a
-  // c40b
-{
-    // c41
-char[]
-    // c42
-Flags , char[] // c45
-OrderId // c46a
-  // c46b
-, // c47a
-  // c47b
-zchar[ 6 // c49a
-  // c49b
-] // c50a
-  // c50b
-msgKind , Fill // c53a
-  // c53b
-, // c54a
-  // c54b
-char[] Acct // c56
-, // c57
-u8 f1
-    // c59
-,
-    // c60
-match // c61a
-  // c61b
-f1
-    // c62
-as
-    // c63
-Body { 188 // c66a
-  // c66b
-: // c67a
-  // c67b
-Fill // c68a
-  // c68b
-, 5 : // c71a
-  // c71b
-Logon // c72a
-  // c72b
-, // c73a
-  // c73b
-} // c74a
-  // c74b
-, u32 clOrdID // c77a
-  // c77b
-@calculatedFrom(
-    // c78
-""CRC32"" // c79
-) // c80
-, } ")).
-Eval vm_compute in ("<<<M1358>>>" ++ check (runes_of_ascii "root  packet
-roots {
-repeat rootA`{ , }`
-,BodyLength, @lengthOf(
-    int )
-    u64	pack
-`// not a comment` , chars @lengthOf( crc
-) // packet A { u8 x, }
-,
-// @lengthOf(
 // `tick` ""quote"" 'q'
-tag `u8 x,` , match x_y_z	as chars{// " ++ [128512]%N ++ runes_of_ascii " emoji
-[ 65535 ,""x y""// a // b
-,
-    10	, 4294967296]: //x
-repeatCount,
-[ 255 ] // @lengthOf(
-: i8i8,4294967296
-    : metadata
-, [ 10 , """", 255 ,0 , ""abc""
-    , 10 ]  :rootA
+roots ,  match u as x  {  [""" ++ [28040; 24687]%N ++ runes_of_ascii """
+    , 0,""a	b""
     // @lengthOf(
-    ,
-[ ""1"" , ""1""
-    ]
-:uint8x , ["""" , 10
-    // trailing space 
-    ]
-:
-    options1 ,} ,  }packet trueish {uint16
-i64_ , }
-    packet zchar
-    {Logon {
+    , 3/// triple
+,
+    ""a\""b"", ""// no comment""	,""packet"" , ""`tick`"" ]	: o ,[0  ,	""x y""] : u ""a\""b"" : pack [ 65535 , 007
+    , """ ++ [233]%N ++ runes_of_ascii "t" ++ [233]%N ++ runes_of_ascii """
 // " ++ [27880; 37322]%N ++ runes_of_ascii "
 // @lengthOf(
-match pack as
-asx {[
-1 ,// `tick` ""quote"" 'q'
-10] : Logon , [7 ]: pack
-, [
-42,  ""// no comment"" ,
-    7 ,00 ,65535
-]
-    : x
-, //
-""1""
-: uint8x, """" :A 65535	:
-u8x } ,
-}  ,x `u8 x,`, @tag( 65535
-) string stringy `say ""hi""`  , repeat uint16 leftPad `
-` ,
-match options1
-as Foo
-    { ""abc"" : falsey	,
-3:	T
-    ,}
-,zchar[ 4294967296 ]
-charz
-    @lengthOf(	As) , i64 Packet , @lengthOf( MetaDataX ) @lengthOf( metadata	) @calculatedFrom( """ ++ [128512]%N ++ runes_of_ascii """ ) uint8 T @calculatedFrom( """ ++ [128512]%N ++ runes_of_ascii """ ) `" ++ [233]%N ++ runes_of_ascii "` , } // `tick` ""quote"" 'q'")).
-Eval vm_compute in ("<<<M521>>>" ++ check (runes_of_ascii "// `tick` ""quote"" 'q'
-packet msg_type {
-    // c
-    uint8 leftPad ,  } packet roots {@tag(  3 )
-// a // b
-// `tick` ""quote"" 'q'
-string_ //x
-@lengthOf(body )
-,  Header@lengthOf( Z9_
-//x
-/// triple
-) , repeat zchar[ 007 ] roots	,	string_
-msg_type `crlf
-line` , Logon // c
-@lengthOf(	pack // c
-)
-`say ""hi""` ,@rightPad ( '\x00' )
-@leftPad
-    // a // b
-    ( '0' )
-    repeat u8 float `it's` /// triple
-, @calculatedFrom( ""\n"" )	@lengthOf(  falsey // " ++ [128512]%N ++ runes_of_ascii " emoji
-)
-    msg_type{ match
-Packet
-    as tag
-{[
-    10 ,
-007 //x
-]
-    :int , 4294967296
-    : //
-asx
-,} ,
-uint32 string_ @lengthOf(
-    _x ) `two words`
-    //x
-    ,
-    _x
-    //
-    , } ,	f32a {f32 body , uint16  u128 ,
-matchKey	@lengthOf(Packet ) , } ,
-repeat
-    zchar[
-0123456789 ] // a // b
-float `say ""hi""` ,f32 i8i8 `{ , }`, } root packet	options1 {@tag( 0
-    )
-packetx
-, repeat
-float64 BodyLength , }
-    options { Pad =
-    // packet A { u8 x, }
-    true
-// a // b
-/// triple
-; crc = 007; // @lengthOf(
-}
-MetaData packetx{ roots  Packet  `tab	here` , // " ++ [128512]%N ++ runes_of_ascii " emoji
-asx
-    len , }
-
-")).
-Eval vm_compute in ("<<<M367>>>" ++ check (runes_of_ascii "
-options {  Packet = ""packet""len
-=
-""packet"" ;
-    charz =true} packet calculatedFrom// c
-{
-//	t
-// a // b
-repeat// " ++ [27880; 37322]%N ++ runes_of_ascii "
-Packet, uint8x @calculatedFrom(
-// @lengthOf(
-// `tick` ""quote"" 'q'
-""\n""
-    ) , @calculatedFrom( ""// no comment""	)
-@rightPad /// triple
-(	' ') match
-    x
-//x
-//	t
-as Packet
-{
-00 : Pad [
-0	] :// @lengthOf(
-As , }
+,42] // trailing space 
+: f32a 255
+    : i8i8//	t
+, 0123456789 :
+Pad
 ,
-@lengthOf( chars )
-a1 `it's` , match Logon as int { ""packet"": int [ """ ++ [28040; 24687]%N ++ runes_of_ascii """ ,0123456789 // trailing space 
-, ""x y"" , 65535
-    //	t
-    ] : lengthOf, 10:asx, [  ""// no comment"" ] :  zchar, ""// no comment"": a1
-//
-// `tick` ""quote"" 'q'
-, 0 :len
-    ,} // " ++ [27880; 37322]%N ++ runes_of_ascii "
-,
-match u8x as
-    MetaDataX
-{
-    [
-255 ]
-    :
-string_ // packet A { u8 x, }
-, [ ""// no comment"" ,	""CRC32""]: metadata,// packet A { u8 x, }
-""a\""b""	:
-    // " ++ [27880; 37322]%N ++ runes_of_ascii "
-    leftPad }, Header `tab	here`, } packet u128 {
-    char[10//x
-] trueish `tab	here`, repeat asx {
-match
-len as chars {1 : MetaDataX ,
-42 :
-    roots ,
-    10:
-BodyLength,
-""// no comment"" :
-    o , ""a\\"" :	i64_ ,
-    }
-    ,	} ,
-    }
-")).
-Eval vm_compute in ("<<<M3889>>>" ++ check (runes_of_ascii "
-packet
-	f32a
-{	// c
-    string len
-
-    @lengthOf( As ) // " ++ [128512]%N ++ runes_of_ascii " emoji
-    	`line1
-line2`
-,	zchar[
-1  //x
-]
-	zchar
-`{ , }`,
-tag 
-
-//
-@lengthOf(rootA
-
-    )
-,	// c
-	string
-	x_y_z	`" ++ [28040; 24687; 31867; 22411]%N ++ runes_of_ascii "`	,
-	}  packet
-
-    crc
-
-    { BodyLength@lengthOf(msg_type	)
-	,
-}
-
-MetaData packetx	{}
-	root
-packet	lengthOf {  repeat uint32 
-zchar
-	, 	 // " ++ [27880; 37322]%N ++ runes_of_ascii "
-  	T  {msg_type	// a // b
-  { f32a{
-    charz
-    stringy	``	, uint16
-u128
-, i16
-BodyLength
-	@lengthOf(
-	x
-    )
-
-, int8//
-      metadata `tab	here`,
-    }
-
-    // c
-  // trailing space 
-,
-repeat Packet
-`doc`	,// packet A { u8 x, }
-  int8
-A
-    @calculatedFrom(
-
-""CRC32""), }	,
-    Pad 
-asx
-,
-    char[0
-] 
-repeatCount
-,  } , u16  Z9_ `" ++ [233]%N ++ runes_of_ascii "`
-,
-@rightPad(
-    // @lengthOf(
-	'\x00'
-) 
-repeat
-
-    Header  
-      //	t
-
-  // " ++ [27880; 37322]%N ++ runes_of_ascii "
-  `line1
-line2` ,@calculatedFrom(""\" ++ [233]%N ++ runes_of_ascii """)
-    char[]
-
-rootA
-@calculatedFrom(
-    ""// no comment""
-	) `doc`	,// a // b
-	calculatedFrom `a\`
-	,
-} 
-packet
-	As
-
-{ 
-} ")).
-Eval vm_compute in ("<<<M604>>>" ++ check (runes_of_ascii "  packet MetaDataX
-    { @calculatedFrom( """ ++ [233]%N ++ runes_of_ascii "t" ++ [233]%N ++ runes_of_ascii """ ) @calculatedFrom( ""x y"" ) match
-    crc as A { 1 : As ,}
-    ,
-    }
-options {  uint8x
-    = false ;
-} packet	Foo {@tag( 007 ) repeat	x repeatCount, match uint8x as	roots { ""{,}"":
-Foo  , } , @tag( 10
-    // " ++ [128512]%N ++ runes_of_ascii " emoji
-    )int32	msg_type@lengthOf( rootA
-    //	t
-    ) , @calculatedFrom(	""a\""b"")@tag( 10 ) @lengthOf( msg_type )
-A `// not a comment`
-    , int64 asx @calculatedFrom(
-""\" ++ [233]%N ++ runes_of_ascii """ ) , asx @calculatedFrom( ""a\\"" ) ,@calculatedFrom( ""\n""
-) u64
-// c
-// " ++ [128512]%N ++ runes_of_ascii " emoji
-stringy
-    @calculatedFrom( ""CRC32"" ) `u8 x,`
-    ,  @calculatedFrom(
-""1"") @lengthOf(/// triple
-string_ // `tick` ""quote"" 'q'
-)//x
-uint16 roots	@lengthOf(
-u8x
-) `" ++ [28040; 24687; 31867; 22411]%N ++ runes_of_ascii "` ,
-}
-    root packet //	t
-len{ @calculatedFrom(
-    // trailing space 
-    ""CRC32"" ) @tag(
-1)
-repeat
-    char[] Pad
-,} options	{ Pad =
-false ;
-    string_ = uint16 ;
-stringy //
-=
-string } // " ++ [128512]%N ++ runes_of_ascii " emoji")).
-Eval vm_compute in ("<<<M8>>>" ++ check (runes_of_ascii "packet leftPad
-    { @tag( 3 )
-    @tag( // trailing space 
-255 ) @tag( 7 ) Packet @calculatedFrom(
-    ""\n"" )
-    ,
-    @calculatedFrom(
-//x
-/// triple
-""abc""
-)
-    repeat
-    f32a
-    trueish `// not a comment` ,
-    match
-    /// triple
-    calculatedFrom
-as stringy { [	1
-,
-    // @lengthOf(
-    65535 ] :
-    u  ,}
-// `tick` ""quote"" 'q'
-/// triple
-, zchar[ 10 ] o `` , @lengthOf(calculatedFrom
-)
-char x_y_z ,char[] BodyLength ,stringy o
-`line1
-line2` ,
-@tag( 00 )options1  {// @lengthOf(
-float32 asx
-@lengthOf( roots ) ,
-// " ++ [128512]%N ++ runes_of_ascii " emoji
-// `tick` ""quote"" 'q'
-match Z9_
-as
-int
-    {""{,}""
-: A [ // " ++ [27880; 37322]%N ++ runes_of_ascii "
-""a\""b""  ,
-""it's""
-    ] :	repeatCount ,1 :
-    float , ""a\\"": zchar// `tick` ""quote"" 'q'
-[0 , ""abc"" ,0,  00,
-0
-    ,
-""" ++ [128512]%N ++ runes_of_ascii """ ]: T
-, 0123456789	: As , }
-    , }, @lengthOf(
-    msg_type ) i8
-matchKey , repeat
-len len `a\`
-,	}")).
-Eval vm_compute in ("<<<M3931>>>" ++ check (runes_of_ascii "  packet	a1 /// triple
-    {
-    @lengthOf(	As )	uint16 // " ++ [128512]%N ++ runes_of_ascii " emoji
-	  matchKey `line1
-line2` ,}options
-{pack
-
-    =
-7  } packet 
-    // " ++ [128512]%N ++ runes_of_ascii " emoji
-    packetx { @calculatedFrom(
-
-""packet""  )
-
-    int8	metadata
-	@lengthOf(
-
-    metadata	) , @tag(	7 )
-
-    lengthOf
-	@lengthOf(u128  ) 	 // " ++ [128512]%N ++ runes_of_ascii " emoji
-
-	, @rightPad
-	(	)
-	Header@lengthOf(
-	msg_type) ``	,
-
-leftPad ,}packet 
-    // packet A { u8 x, }
-  string_{
-
-    }
-packet
-
-f32a {
-@leftPad
-( 
-'0')
-
-@leftPad
-
-(
-' '  
-  /// triple
-
-) @leftPad 
-(
-
-' ' )
-
-x_y_z	{
-char
-
-    charz
-
-@calculatedFrom(
-    """"
-)
-    //	t
-    	// trailing space 
-      ,repeat
-    rootA
-    repeatCount , 
-	// packet A { u8 x, }
-  	repeat
-    u128 f32a `// not a comment`
-    ,	} ,
-
-    // " ++ [27880; 37322]%N ++ runes_of_ascii "
-      // trailing space 
-} // packet A { u8 x, }")).
-Eval vm_compute in ("<<<M1330>>>" ++ check (runes_of_ascii "  root	packet falsey
-{  }
-root packet x { asx ,
-stringy { //x
-f64 roots
-, char[]// packet A { u8 x, }
-chars@lengthOf( uint8x )
-    // `tick` ""quote"" 'q'
-    `
-`
-, }  , @lengthOf(len ) i8	MetaDataX@calculatedFrom( ""packet""
-) , match MetaDataX
-    as _x
-{ 0
-: uint8x
-, }
-,
-// c
-//x
-@leftPad ( '\x00')uint16 // c
-roots @calculatedFrom(""abc""
-    // `tick` ""quote"" 'q'
-    ) ,  @rightPad
-    (
-' ') int32
-leftPad @calculatedFrom( ""packet"" /// triple
-) `" ++ [233]%N ++ runes_of_ascii "`, }  options { falsey = 7
-i64_
-=int16// packet A { u8 x, }
-len=
-false
-//x
-// @lengthOf(
-;	_x
-='0';asx = """ ++ [28040; 24687]%N ++ runes_of_ascii """
-    ; } options {
-packetx =uint64
-    ; len=
-    true ;
-} packet
-tag // `tick` ""quote"" 'q'
-{@leftPad ( )
-    @calculatedFrom(
-""abc"")
-    int16 Pad @lengthOf( BodyLength  ) , //x
-}
-")).
-Eval vm_compute in ("<<<M1099>>>" ++ check (runes_of_ascii "packet A
-{ repeat//
-Logon, match	falsey as
-    len { ""x y""
-: _x
-10 : Packet
-    1 : x ,
-    }, string
-_x , @calculatedFrom(
-    // " ++ [27880; 37322]%N ++ runes_of_ascii "
-    ""\" ++ [233]%N ++ runes_of_ascii """)
-    char[
-    10 ] leftPad  `doc`
-    ,
-    }
-packet tag {@calculatedFrom(""" ++ [128512]%N ++ runes_of_ascii """ )	repeat  Logon { match
-    a1 as asx {
-[ 0123456789
-, 3 ] : T , 1 : Foo ,// " ++ [27880; 37322]%N ++ runes_of_ascii "
-[
-42 ,
-    42 ]
-    // " ++ [27880; 37322]%N ++ runes_of_ascii "
-    :  i64_	,
-[007 //
-]
-:
-Header , }
-    , repeat zchar[ 0
-] As, repeat char body
-    ,
-},} packet
-    u
-{ @calculatedFrom(
-    """ ++ [233]%N ++ runes_of_ascii "t" ++ [233]%N ++ runes_of_ascii """ ) @calculatedFrom( // trailing space 
-""abc""	)
-    @tag(
-00
-    //x
-    )	string_ ,
-    repeat string crc
-    , match
-trueish as Foo {
+} , Foo , @calculatedFrom( ""x y"" )
+body{
+    repeat string metadata`it's` , repeat zchar
+    x_y_z , lengthOf {Logon
+    pack
+, match options1
+as leftPad// c
+{ //x
+10:a1
+, """ ++ [28040; 24687]%N ++ runes_of_ascii """
+    :	A , [
 // trailing space 
-//
-[10 , 255 ] : float
-    } , match As as zchar{
-    /// triple
-    10:T } ,
-//
-//x
-}")).
-Eval vm_compute in ("<<<M4191>>>" ++ check (runes_of_ascii "
-MetaData i64_
-{ int
-rootA
-    /// triple
+// " ++ [128512]%N ++ runes_of_ascii " emoji
+""" ++ [28040; 24687]%N ++ runes_of_ascii """ ,65535 , 0123456789 , 0
+] : i64_ , 1 // " ++ [27880; 37322]%N ++ runes_of_ascii "
+: string_ ,
+65535	:calculatedFrom ,
+}
+    , crc { u128, u128
+@lengthOf( x) , u16 falsey @lengthOf( u )	, } , char[ 42] options1
+@calculatedFrom( ""packet"")
+`u8 x,`,} , float/// triple
+float  `u8 x,` , }
+,match  packetx
+    as T { ""packet""
 // @lengthOf(
-    	,char[ 0
-
-]A`{ , }`
+// @lengthOf(
+: As,
+007 : BodyLength , 00:
+trueish
+, [
+    ""abc""  ,
+10
+    , 3 , 10,
+007
     ,
-	u128
+// " ++ [128512]%N ++ runes_of_ascii " emoji
+// c
+""\n""
+, 1
+//	t
+// a // b
+] : _x ,}	, o
+    `say ""hi""` ,
+@leftPad
+( '0' )
+@tag( 10 ) @calculatedFrom( ""\" ++ [233]%N ++ runes_of_ascii """ )
+u32 //	t
+i64_
+    // `tick` ""quote"" 'q'
+    `{ , }`
+,x
+body `line1
+line2`//	t
+,
+}
+packet
+    repeatCount {i64 rootA @calculatedFrom( """ ++ [128512]%N ++ runes_of_ascii """ )	`" ++ [28040; 24687; 31867; 22411]%N ++ runes_of_ascii "` , @rightPad( ' ' ) @rightPad
+(	)  int32 rootA	@calculatedFrom( ""{,}"" ) , i16
+    BodyLength // " ++ [27880; 37322]%N ++ runes_of_ascii "
+, @calculatedFrom( ""`tick`"" )
+Logon
+    lengthOf `two words`
+, zchar[ 4294967296]
+x_y_z
+    `" ++ [28040; 24687; 31867; 22411]%N ++ runes_of_ascii "` , string zchar
+    `say ""hi""`
+// `tick` ""quote"" 'q'
+// c
+, @tag( 1 ) f32 x_y_z `it's`
+, } root packet string_ {// @lengthOf(
+@leftPad
+( '0'
+) // a // b
+@calculatedFrom( ""// no comment"" ) @leftPad
+( ) // " ++ [27880; 37322]%N ++ runes_of_ascii "
+char[
+1]
+tag
+    `say ""hi""` , @calculatedFrom( // " ++ [27880; 37322]%N ++ runes_of_ascii "
+""it's""
+)
+    match BodyLength  as A {
+    255 :Foo,}, u16 x_y_z
+@calculatedFrom( ""CRC32""
+    ) , o  MetaDataX `// not a comment`, options1  @lengthOf(
+x ) , match  float as
+A{ [65535 ] :
+    leftPad
+, [ 007
+,
+7 , ""a\\"",1
+] : msg_type,  10 :u128 """ ++ [28040; 24687]%N ++ runes_of_ascii """ : As , }  ,}
+")).
+Eval vm_compute in ("<<<M3995>>>" ++ check (runes_of_ascii "packet body {
+    chars `two words`,
+    match crc as metadata {
+        65535 : trueish,
+        ""\" ++ [233]%N ++ runes_of_ascii """ : charz,
+        ""abc"" : MetaDataX,
+        [
+            ""packet"", ""// no comment"", 0, 00, ""// no comment"",
+            ""{,}"", 00
+        ] : i64_,
+        """ ++ [233]%N ++ runes_of_ascii "t" ++ [233]%N ++ runes_of_ascii """ : f32a,
+        [""" ++ [128512]%N ++ runes_of_ascii """, ""it's""] : Foo,
+    },
+    @rightPad(' ')
+    repeat char[1] body `it's`,
+    @tag(007)
+    @calculatedFrom(""" ++ [233]%N ++ runes_of_ascii "t" ++ [233]%N ++ runes_of_ascii """)
+    // @lengthOf(
+    //
+    @calculatedFrom(""a\""b"")
+    repeat i64_ {
+        roots {
+            i16 Header `two words`,
+            repeatCount `{ , }`,
+            f64 x @calculatedFrom(""a	b""),
+            repeatCount @calculatedFrom(""""),
+        },
+        repeat u8 BodyLength `crlf
+        line`,
+        // `tick` ""quote"" 'q'
+        char As @lengthOf(Foo),
+    },
+    char[] roots `line1
+    line2`,//
+    int a1,
+    string_ {
+        char[] Logon `line1
+        line2`,
+        repeat float32 trueish,
+    },
+    @leftPad('0')
+    repeat metadata {
+        rootA @lengthOf(falsey) ``,
+        // " ++ [128512]%N ++ runes_of_ascii " emoji
+        // packet A { u8 x, }
+    },
+}
 
-    rootA  `doc`
+packet float {
+    u16 Logon `tab	here`,
+    // @lengthOf(
+    // c
+    u128 {
+        zchar[255] charz `doc`,
+    },
+    @tag(0)
+    repeat Foo {
+        i32 body @calculatedFrom(""`tick`"") `" ++ [233]%N ++ runes_of_ascii "`,
+    },
+    char[] o @calculatedFrom(""1"") `line1
+    line2`,
+    @lengthOf(zchar)
+    i16 BodyLength @lengthOf(BodyLength),
+    @lengthOf(T)
+    @rightPad(' ')
+    @lengthOf(T)
+    repeat u64 _x,
+    match MetaDataX as options1 {
+        //x
+        0123456789 : options1,
+    },
+    repeat u8 charz,
+    repeat i8i8 {
+        // c
+        a1,
+        len {
+            repeat string o,
+            // a // b
+        },
+        match zchar as Logon {
+            """" : matchKey,
+            """ ++ [128512]%N ++ runes_of_ascii """ : u,
+            007 : repeatCount,
+        },// c
+    },
+}")).
+Eval vm_compute in ("<<<M897>>>" ++ check (runes_of_ascii "packet zchar
+    /// triple
+    {
+match calculatedFrom as
+repeatCount {	[ ""{,}""]
+    : zchar , 00 :
+Pad
+    , 0 : pack	, }, // @lengthOf(
+f64 o`" ++ [28040; 24687; 31867; 22411]%N ++ runes_of_ascii "`,int32 f32a
+    @lengthOf( body ) //
+`
+`
+    ,  char[ 3 ] chars //	t
+`crlf
+line`
+    , }
+// @lengthOf(
+// packet A { u8 x, }
+MetaData metadata {
+string int
+    ,
+    len lengthOf , } root
+packet	A {
+@tag(0123456789 ) zchar[
+    0123456789
+    ] BodyLength // " ++ [27880; 37322]%N ++ runes_of_ascii "
+, @leftPad( '0' ) @rightPad ( ' '//
+) zchar[0123456789
+]tag `it's` , @tag(
+    007
+)// trailing space 
+@tag(
+    7
+) falsey	@calculatedFrom(
+    ""\" ++ [233]%N ++ runes_of_ascii """//
+), @calculatedFrom(""{,}"" )
+repeat Packet , @lengthOf(u
+    )@calculatedFrom(
+""a\""b""
+// a // b
+// `tick` ""quote"" 'q'
+) @lengthOf(lengthOf )char[]
+uint8x,@leftPad ( '\x00' )// trailing space 
+repeat T { i8i8 a1 ,
+    char[	65535] chars
+    `u8 x,`,
+    Pad , }
+,
+    @lengthOf( o ) u8 x , @calculatedFrom( // @lengthOf(
+""a	b"" )
+lengthOf//
+`// not a comment`
+, A  {  repeat calculatedFrom
+matchKey
+,
+options1 @calculatedFrom( ""a	b""	), // trailing space 
+repeat	u	`line1
+line2` , } ,} packet i8i8
+{} packet pack { zchar[ 0123456789] leftPad`
+`	,@rightPad (
+    '\x00'
+    )
+repeat int
+`" ++ [28040; 24687; 31867; 22411]%N ++ runes_of_ascii "`  ,match Packet as
+BodyLength// @lengthOf(
+{[
+00 // a // b
+, 7 ] //x
+: falsey }	,	@tag(00)
+repeat zchar[1 ] len // a // b
+`u8 x,` , @leftPad(  ) rootA
+//	t
+//	t
+@lengthOf(  len
+    ) ,
+    @tag(
+    42 ) // `tick` ""quote"" 'q'
+@lengthOf( i64_ ) repeat	len
+{ x { Logon{
+options1 Logon,
+    }
+, stringy  { string body @lengthOf(tag ) , }
+, falsey falsey
+, } //x
+, MetaDataX
+roots
+`// not a comment` ,} ,}")).
+Eval vm_compute in ("<<<M3700>>>" ++ check (runes_of_ascii "
+options	{
+tag =
 
-    ,	// @lengthOf(
-  	zchar[ 	 //x
-  42 
-]  i8i8 `it's` 
-, 
-	    /// triple
-  char[ 
-00
-	] u,
-zchar[0123456789]A`line1
-line2` , 
-} packet Z9_	{ @lengthOf(
-pack ) @calculatedFrom( ""a\\""
+0 ;
+	}packet 
+u8x { 	 // trailing space 
 
+u  Z9_
+,
+    @tag(00 ) @rightPad	(
+    '\x00'
     ) 
-BodyLength@calculatedFrom(
-""\" ++ [233]%N ++ runes_of_ascii """ )  ,	@rightPad
-	( 
-)	@tag(
-	1	)@lengthOf(
-	i8i8
+@calculatedFrom( ""CRC32"" )	//	t
+crc
+
+,	metadata @calculatedFrom(""a	b""
+
+) // c
+	, @tag(4294967296  ) u64  rootA `tab	here`	,// @lengthOf(
+  	@calculatedFrom(
+""\n""
 	)
 
-    char[] 
-trueish 
+char[]
+    pack
+@lengthOf(chars  ) 
+`" ++ [28040; 24687; 31867; 22411]%N ++ runes_of_ascii "` ,
+    zchar[255  ]
+    Foo	@lengthOf(
+
+f32a
+
+)  ,  @leftPad
+( )
+@lengthOf(  string_
+) @rightPad (
+' '
+)  match 
+msg_type as// " ++ [128512]%N ++ runes_of_ascii " emoji
+
+falsey {
+    // a // b
+
+  ""a	b""
+
+:
+
+x	,	}  ,@calculatedFrom(
+	""{,}""
+	) 
+match body	as
+MetaDataX
+    {
+42 // " ++ [27880; 37322]%N ++ runes_of_ascii "
+    : u8x	0123456789  :
+options1
+
+, 	 // c
+  [  3
+	] :
+
+    As , [ 00 
+]
+    : // c
+      A,
+""CRC32"":
+zchar , [  ""it's"" , """ ++ [233]%N ++ runes_of_ascii "t" ++ [233]%N ++ runes_of_ascii """  ,""1""	, 3
+
+    ,
+	""a	b"" ,
+1
+	    //x
+	, 0123456789 , //	t
+    4294967296  ]: packetx
+	, // " ++ [27880; 37322]%N ++ runes_of_ascii "
+
+	},repeat uint8 o
+`{ , }`, 
+	    //	t
+    //
+	} packet
+
+    leftPad  { u32  
+      // packet A { u8 x, }
+	  //x
+  packetx `a\` 
+,@calculatedFrom(
+""// no comment""	) 
+@rightPad
+	( 
+)
+    @lengthOf( 
+asx
+
+) 
+        // c
+  // trailing space 
+	char[ 42
+] calculatedFrom
+    @lengthOf(packetx  ) , @tag(00
+
+    )stringy
+	msg_type,u128
+i64_
+
+    `it's`
 ,
 
-    f32a
-@calculatedFrom( """ ++ [28040; 24687]%N ++ runes_of_ascii """ 
-)
-	`u8 x,` 
-, 
-@tag(
+@rightPad('\x00') 
+u8x
+
+    ,  @calculatedFrom( """ ++ [28040; 24687]%N ++ runes_of_ascii """ 
+) len msg_type ,	// packet A { u8 x, }
+	MetaDataX
+pack 
+
+    // c
+,  @calculatedFrom(
+""" ++ [28040; 24687]%N ++ runes_of_ascii """
+) string
+
+    MetaDataX	//	t
+      `
+`
+,
+
+    }")).
+Eval vm_compute in ("<<<M1392>>>" ++ check (runes_of_ascii "options {
+    StringPrefixLenType = u16;
+    ArrayPrefixLenType = u16;
+}
+
+packet SampleBinary {
+    uint16 MsgType `" ++ [28040; 24687; 31867; 22411]%N ++ runes_of_ascii "`,
+    u16 BodyLenght @lengthOf(Body) `" ++ [28040; 24687; 20307; 38271; 24230]%N ++ runes_of_ascii "`,
+    match MsgType as Body {
+        1 : Logon,
+        2 : Logout,
+        3 : Heartbeat,
+        4 : RiskControlRequest,
+        5 : RiskControlResponse,
+    },
+    @calculatedFrom(""CRC32"")
+    u32 Ckecksum `" ++ [26657; 39564; 21644]%N ++ runes_of_ascii "`,
+}
+
+packet Logon {
+    @leftPad('0')
+    char[10] UserName `" ++ [29992; 25143; 21517]%N ++ runes_of_ascii "`,
+    string Password `" ++ [23494; 30721]%N ++ runes_of_ascii "`,
+    uint64 ClientId `" ++ [23458; 25143; 31471]%N ++ runes_of_ascii "ID`,
+    u16 HeartbeatInterval `" ++ [24515; 36339; 38388; 38548]%N ++ runes_of_ascii "`,
+}
+
+packet Logout {
+    @rightPad('0')
+    char[10] UserName `" ++ [29992; 25143; 21517]%N ++ runes_of_ascii "`,
+    uint64 ClientId `" ++ [23458; 25143; 31471]%N ++ runes_of_ascii "ID`,
+}
+
+packet Heartbeat {
+}
+
+packet RiskControlRequest {
+    string UniqueOrderId `" ++ [21807; 19968; 35746; 21333; 21495]%N ++ runes_of_ascii "`,
+    char[16] ClOrdID `" ++ [23458; 25143; 35746; 21333; 21495]%N ++ runes_of_ascii "`,
+    char[3] MarketID `" ++ [24066; 22330]%N ++ runes_of_ascii "id`,
+    char[12] SecurityID `" ++ [35777; 21048; 20195; 30721]%N ++ runes_of_ascii "`,
+    char Side `" ++ [20080; 21334; 26041; 21521]%N ++ runes_of_ascii "`,
+    char OrderType `" ++ [35746; 21333; 31867; 22411]%N ++ runes_of_ascii "`,
+    u64 Price `" ++ [20215; 26684]%N ++ runes_of_ascii "`,
+    u32 Qty `" ++ [25968; 37327]%N ++ runes_of_ascii "`,
+    repeat string ExtraInfo `" ++ [38468; 21152; 20449; 24687]%N ++ runes_of_ascii "`,
+    repeat SubOrder {
+        char[16] ClOrdID `" ++ [23376; 35746; 21333; 21495]%N ++ runes_of_ascii "`,
+        u64 Price `" ++ [23376; 35746; 21333; 20215; 26684]%N ++ runes_of_ascii "`,
+        u32 Qty `" ++ [23376; 35746; 21333; 25968; 37327]%N ++ runes_of_ascii "`,
+    },
+}
+
+packet RiskControlResponse {
+    string UniqueOrderId `" ++ [21807; 19968; 35746; 21333; 21495]%N ++ runes_of_ascii "`,
+    i32 Status `" ++ [29366; 24577]%N ++ runes_of_ascii "`,
+    string Msg `" ++ [32467; 26524; 20449; 24687]%N ++ runes_of_ascii "`,
+    repeat Detail,
+}
+
+packet Detail {
+    string RuleName `" ++ [35268; 21017; 21517; 31216]%N ++ runes_of_ascii "`,
+    u16 Code `" ++ [21407; 22240; 20195; 30721]%N ++ runes_of_ascii "`,
+}")).
+Eval vm_compute in ("<<<M534>>>" ++ check (runes_of_ascii "
+packet
+float
+{ @leftPad ( // packet A { u8 x, }
+'\x00' )
+    i64_ {string Z9_
+,} ,
+    @tag( //x
+0 )char[] u8x @calculatedFrom( ""a	b"" ) ,@lengthOf(	u128)int8
+    u	`two words` ,
+u64 Foo `a\` //x
+, @leftPad// packet A { u8 x, }
+(
+    '0'
+    )
+repeat
+//x
+// " ++ [128512]%N ++ runes_of_ascii " emoji
+repeatCount //x
+{ repeat Pad {repeat  tag {
+    char[
+00 ] //	t
+Logon `it's` , string_, }
+    ,  match // " ++ [128512]%N ++ runes_of_ascii " emoji
+As // c
+as
+    matchKey
+    {
+    7:lengthOf } ,
+    match u128  as tag {
+    [ 7 ]
+    :// " ++ [128512]%N ++ runes_of_ascii " emoji
+Packet
+    //	t
+    , """ ++ [28040; 24687]%N ++ runes_of_ascii """: Foo ,65535 // " ++ [128512]%N ++ runes_of_ascii " emoji
+: calculatedFrom
+//x
+//x
+}/// triple
+, // a // b
+} , // " ++ [128512]%N ++ runes_of_ascii " emoji
+f32
+options1 `doc`// c
+, // trailing space 
+} ,@leftPad ( '0'	) match  rootA // packet A { u8 x, }
+as
+i64_ {3
+// " ++ [128512]%N ++ runes_of_ascii " emoji
+//
+: msg_type , ""abc"": rootA ,
+    //	t
+    [ ""CRC32"" ]
+: float ,10 : pack ,""" ++ [128512]%N ++ runes_of_ascii """
+:	tag } ,
+@rightPad (
+    // trailing space 
+    '\x00')	char[ 65535] _x @calculatedFrom( """ ++ [128512]%N ++ runes_of_ascii """	), char[ 4294967296 ] lengthOf @calculatedFrom(""// no comment"" ) ,@leftPad (  ' ' )zchar[007 ] options1 ,/// triple
+}	packet
+    // " ++ [27880; 37322]%N ++ runes_of_ascii "
+    rootA {
+} packet charz
+    { repeat
+As`` ,} packet f32a {	}
+    MetaData	roots { body matchKey `// not a comment`,
+}
+")).
+Eval vm_compute in ("<<<M278>>>" ++ check (runes_of_ascii "MetaData f32a { uint8
 /// triple
-65535
-)
-
-string
-
-trueish
+//x
+x ,
+f64 As
+`" ++ [233]%N ++ runes_of_ascii "`
+    // packet A { u8 x, }
+    , i64 f32a `u8 x,`  , uint32 // " ++ [128512]%N ++ runes_of_ascii " emoji
+string_ `crlf
+line` , char[ 10] pack
+    `a\` /// triple
+,Packet lengthOf	,}
+    root
+packet
+    MetaDataX { i32	u8x`tab	here` ,
+char[] stringy @lengthOf( repeatCount
+    ) `crlf
+line` , @rightPad ( )@lengthOf( Foo  ) char[
+65535	] body  , repeat pack{
+rootA `it's`
+    , match msg_type as  x_y_z {
+1:
+i64_ , 0123456789
+:Logon
+    , [ ""CRC32""]
+:
+A 1
+: _x , // a // b
+[ 42
+    // a // b
+    ] //
+:// @lengthOf(
+repeatCount , ""a	b""
+: pack
     ,
-	}
-packet BodyLength {
-stringy	@lengthOf( Z9_ )
-
-    ,	char[
-
-007
-	] 
-metadata
-@calculatedFrom( 
-
+},
+char[
+    4294967296]lengthOf @lengthOf( options1//x
+), } , @tag( 4294967296 ) // " ++ [128512]%N ++ runes_of_ascii " emoji
+@calculatedFrom( //x
+""" ++ [128512]%N ++ runes_of_ascii """ )
+// " ++ [128512]%N ++ runes_of_ascii " emoji
+// " ++ [27880; 37322]%N ++ runes_of_ascii "
+repeat string	u, @lengthOf( // @lengthOf(
+f32a	) @tag(
+    007 ) @tag(
+7  ) msg_type Pad  , }
+    MetaData roots
+    { u64 MetaDataX
+,}
+packet // " ++ [27880; 37322]%N ++ runes_of_ascii "
+roots
+{
+@tag(
+    255 )
+    char[
+0123456789
+]  Logon`" ++ [28040; 24687; 31867; 22411]%N ++ runes_of_ascii "`
+    ,
+    body // packet A { u8 x, }
+@lengthOf( // a // b
+u8x) `two words`
+// " ++ [27880; 37322]%N ++ runes_of_ascii "
 /// triple
-    // @lengthOf(
-""""
-) `" ++ [233]%N ++ runes_of_ascii "`
-	,
+, @lengthOf( Z9_
+)
+    packetx @calculatedFrom( """ ++ [28040; 24687]%N ++ runes_of_ascii """ )// " ++ [27880; 37322]%N ++ runes_of_ascii "
+,
     }
 ")).
-Eval vm_compute in ("<<<M4078>>>" ++ check (runes_of_ascii "
+Eval vm_compute in ("<<<M3925>>>" ++ check (runes_of_ascii "
 
-  packet
-body
+  // a // b
+packet  body{
+	@lengthOf(
+	tag 
 
-    {@tag( 
-00
-    ) zchar[
-    255
-] 
+    // trailing space 
+	)
+char[ 255 ]
 
-//	t
-  // `tick` ""quote"" 'q'
-zchar@calculatedFrom(
-    ""it's"")
-	, int8
-i8i8 
-,
-	x_y_z
-@lengthOf( 
-options1  ),
-    // packet A { u8 x, }
+Packet ,
+@leftPad 
+( )@rightPad	(
+'0' )
+	repeat  Pad{ repeat	char[007
 
-zchar[00  ]T  ,
-	repeat 
-float64
-	chars
-, 
-f64	repeatCount
-    `doc`
-,
-repeat	i64_
+]
 
-    repeatCount	, repeat
+    As ,
+    }
+	,match
 Header
+	as crc
+    {007
 
-    int 
+:
+	Logon[ ""a\""b"", 0]
+
+:
+_x
+    ,
+
+255
+
+    :
+	_x 	 // trailing space 
+	,
+
+3 : 
+pack
+
+    ,
+
+""a\\""
+: _x ,
+""CRC32"":  repeatCount  // trailing space 
+	,
+    } 
+    // `tick` ""quote"" 'q'
+// " ++ [128512]%N ++ runes_of_ascii " emoji
+  , @lengthOf(	MetaDataX )  charz chars 	 // @lengthOf(
+
+	`it's`	,  @tag(
+    10	//
+	)  match
+    a1
+
+    as 
+x_y_z	{""// no comment""  : Foo ,
+
+[""// no comment"" ,10
+
+]: roots ,
+
+}
+
 ,
-uint16
-	len
-	`line1
-line2` , @lengthOf(
-	Header )
-@tag(0123456789
-) float64 u8x@lengthOf(  options1 )
-	`u8 x,`
+} packet options1  {}
 
-    ,}
-	options{ 
+    packet
+
+    asx {
+	@rightPad
+
+(  ' '
+) 
+match
+
+    string_
+as MetaDataX  //x
+{
+	[ 
+42 
+,	// trailing space 
+
+	3
+,
+""abc""  ,
+	7 ]:  rootA ,
+    0123456789
+:
+	BodyLength 
+""abc""
+
+:
+BodyLength	,""x y""
+    :metadata
+,
+    }
+,	}	MetaData
+    u128  {string 
+rootA
+	, 
+}	MetaData
+	_x {  i8i8
+    matchKey	`it's` 
+
+    //	t
+		// a // b
+		, uint32
+len,
+tag
+
+options1 ,  char[
+1	]
+x ,
+	}
+")).
+Eval vm_compute in ("<<<M3641>>>" ++ check (runes_of_ascii "options
+    {  StringPrefixLenType=	u64; ArrayPrefixLenType
+
+= 
+u16;
+
+FixedStringPadChar=' '
+	;
+
+} packet
+
+Logon
+{i32
+msgKind
+
+    ,	repeat
+
+    InOrderid65{u8
+
+pad0
+,
+}
+	,
+	i8 
+tag7,
+    @leftPad  (
+
+    ' ' )
+
+    char[
+12  ]
 x
 
-=	""\" ++ [233]%N ++ runes_of_ascii """  ;	} 
-    // " ++ [128512]%N ++ runes_of_ascii " emoji
-		MetaData 
-trueish{options1
-float
-``	, // a // b
-	zchar[  3 
-] lengthOf
 ,
-}options
+}	packet
+	Leg{char[] 
+f1
 
-    { rootA 
-=
-""1""
-
-    T =
-	""" ++ [128512]%N ++ runes_of_ascii """
-}
-
-")).
-Eval vm_compute in ("<<<M359>>>" ++ check (runes_of_ascii "  root
-    packet o
-{ a1 a1	, char[
-3 ] i8i8 `
-` , @calculatedFrom( ""a\""b"" )// packet A { u8 x, }
-repeat /// triple
-Pad
-    , }
-// `tick` ""quote"" 'q'
-// `tick` ""quote"" 'q'
-packet
-    tag{ i8i8 @calculatedFrom( ""x y"" )
-`it's`
-, @lengthOf(x_y_z
-) @calculatedFrom(
-//
-//	t
-""a\""b""
-    ) u {
-match	a1 as
-    Logon { ""\n"" : Pad
-,3
-:	body , """"
-:// `tick` ""quote"" 'q'
-Logon ,
-""\n"" : T
-, ""`tick`""
-:
-    tag ,
-[ """ ++ [233]%N ++ runes_of_ascii "t" ++ [233]%N ++ runes_of_ascii """/// triple
 ,
-7,
-""a\""b""	, 0123456789
-,""abc"" , """ ++ [28040; 24687]%N ++ runes_of_ascii """ ,0 ] : Z9_
-    },
-    char[ 00  ]//
-string_@lengthOf( asx ), char[
-    1 ]falsey , } ,match	crc
-as
-    lengthOf {
-    4294967296 : a1
-}, }
-")).
-Eval vm_compute in ("<<<M3618>>>" ++ check (runes_of_ascii "// top
-options
-    // c0
-{
-    // c1
-StringPrefixLenType
-    // c2
-= // c3
-u16 // c4
-;
-    // c5
-FixedStringPadChar
-    // c6
-=
-    // c7
-' ' // c8
-; // c9a
-  // c9b
-} // c10a
-  // c10b
-packet
-    // c11
-Party
-    // c12
-{ // c13
-}
-    // c14
-packet
-    // c15
-Quote {
-    // c17
-repeat // c18
-Party
-    // c19
-, repeat
-    // c21
-char[
-    // c22
-2 ] f1
-    // c25
-, } // c27a
-  // c27b
-packet
-    // c28
-Logon { // c30a
-  // c30b
-} // c31a
-  // c31b
-root packet // c33a
-  // c33b
-Cancel // c34
-{
-    // c35
-uint16
-    // c36
-x // c37
-, // c38
-zchar[ // c39
-6 ] f1 , // c43
-} ")).
-Eval vm_compute in ("<<<M839>>>" ++ check (runes_of_ascii "options {
-uint8x =	true	;	calculatedFrom= '\x00'options1 = // @lengthOf(
-""`tick`"" ;
-    Header=false ; } root  packet MetaDataX {i16
-// c
-// `tick` ""quote"" 'q'
-A `" ++ [28040; 24687; 31867; 22411]%N ++ runes_of_ascii "`,T
-// trailing space 
-// trailing space 
-Logon,repeat// c
-char[ 65535 ] packetx
-`tab	here`,
-//
-//x
-@tag(
-65535
-    )
-char[
-007] u8x ,
-repeat u128 `a\`
-, @lengthOf( Pad)  @lengthOf( u8x )
-pack @lengthOf(
-    pack)
-,repeat zchar[
-0 ]chars
-,zchar[ 65535/// triple
-]
-T , } options { i8i8 =""CRC32""; metadata = '0'
-; // " ++ [128512]%N ++ runes_of_ascii " emoji
-lengthOf
-    =  '0' ;
-}
-MetaData float { uint8 int , }
-")).
-Eval vm_compute in ("<<<M4476>>>" ++ check (runes_of_ascii "
+	repeat
 
-  // @lengthOf(
-    	MetaData msg_type
-    // `tick` ""quote"" 'q'
-  // @lengthOf(
-    { 
-string
-Logon  , i8
-repeatCount
-`// not a comment` ,  } packet
-i64_ { 
+char[
+	5
+] 
+Px  ,InQty34 {
+repeat
+    char[ 6 
+] 
+Qty
+    , char[
 
-    // c
-	@leftPad
-    (
+7]
+    seqNo
+
+    , string count,
+    }
+
+,Logon  ,
+	}
+
+packet
+    Party {  @leftPad  (
 
     '0'
-)  repeat
-	repeatCount`u8 x,`
 
-,	Header { // " ++ [27880; 37322]%N ++ runes_of_ascii "
-  A{
-uint32
-T
-
-    `crlf
-line`
-,
-} ,	},}MetaData
-	Header	// " ++ [27880; 37322]%N ++ runes_of_ascii "
-	{
-Header
-	u
-
-    `doc`
-	, 
-  // " ++ [27880; 37322]%N ++ runes_of_ascii "
-char[ 4294967296 ]
-u128  ,	float32
-falsey
-	, char[ 10
-]
-
-    roots
-`crlf
-line`,	int64 calculatedFrom 
-`say ""hi""` 
-,
-
-    }
-    root
-packet i64_{	/// triple
-		}
-")).
-Eval vm_compute in ("<<<M3969>>>" ++ check (runes_of_ascii "options {
-    falsey = ""abc"";
-    roots = '0';
-    MetaDataX = '0';//
-    crc = 42// a // b
-    x = '0';
-}
-
-packet A {
-    repeat uint64 u128,
-    @tag(65535)
-    int16 options1 `line1
-        line2`,
-}
-
-options {
-    // packet A { u8 x, }
-    int = ""// no comment""
-    msg_type = zchar[0123456789];
-    calculatedFrom = u8;
-    asx = """ ++ [28040; 24687]%N ++ runes_of_ascii """;
-    body = 10
-}
-
-options {
-    charz = true
-    metadata = char[];
-    Packet = true
-}
-
-packet Logon {
-    @calculatedFrom(""" ++ [128512]%N ++ runes_of_ascii """)
-    repeat packetx rootA,
-}")).
-Eval vm_compute in ("<<<M600>>>" ++ check (runes_of_ascii "packet x_y_z{ @calculatedFrom( """ ++ [128512]%N ++ runes_of_ascii """ )match a1	as MetaDataX { // a // b
-""" ++ [128512]%N ++ runes_of_ascii """ :
-    u8x , [	""" ++ [28040; 24687]%N ++ runes_of_ascii """ ] :asx 255 : falsey , [ 007
-]
-:
-stringy
-    10: chars /// triple
-, } , string_
-{ char[ 4294967296 ] packetx, }, } // trailing space 
-root packet
-    u128 { calculatedFrom MetaDataX`crlf
-line`	, repeat leftPad x_y_z
-    //
-    ,} packet BodyLength {
-char Pad @lengthOf( uint8x ) `" ++ [233]%N ++ runes_of_ascii "` ,@tag(
-    42  )  @calculatedFrom( """ ++ [28040; 24687]%N ++ runes_of_ascii """)
-    repeat charz ,chars @calculatedFrom(	""" ++ [233]%N ++ runes_of_ascii "t" ++ [233]%N ++ runes_of_ascii """
-    ) , }")).
-Eval vm_compute in ("<<<M1375>>>" ++ check (runes_of_ascii "
-root
-    packet _x
-    { }
-    /// triple
-    root packet // `tick` ""quote"" 'q'
-rootA
+)  char[
+    10	]
+    OrderId	,
+    string Tail , }
+	packet	Fill 
 {
-    @lengthOf( msg_type
-)
-    @calculatedFrom( ""a	b""
-    ) Z9_ { repeat char[]msg_type `two words` , }, }
-options {Logon = 7 ; u8x = '0' len =
-'\x00' Foo	=
-    10 ; } MetaData leftPad
-    {// @lengthOf(
-Packet
-i8i8 `a\`
+
+zchar[  5
+
+    ] 
+venue
+
 ,
-msg_type
-    int// " ++ [27880; 37322]%N ++ runes_of_ascii "
-`line1
-line2`
-// @lengthOf(
-/// triple
-,
-uint8x
-i8i8
-    `it's`
-    ,BodyLength repeatCount ,// packet A { u8 x, }
-}
-")).
-Eval vm_compute in ("<<<M3702>>>" ++ check (runes_of_ascii "options {
-    int = 7;
-    float = int64;
-    /// triple
-    // a // b
-    stringy = 3
-    rootA = ""CRC32""
-    x = true// " ++ [128512]%N ++ runes_of_ascii " emoji
-}
+zchar[3
+	]  clOrdID, 
+InRef95
+    {InLastpx25
 
-options {
-    A = uint16;
-    metadata = ""1""
-    // trailing space 
-    // `tick` ""quote"" 'q'
-    packetx = 10// " ++ [128512]%N ++ runes_of_ascii " emoji
-}
+{u8 pad0
 
-MetaData Packet {
-    T int `u8 x,`,
-    o _x,
-    falsey chars,
-}
-
-root packet string_ {
-    packetx Pad `a\`,
-    trueish x_y_z,
-    body,
-    repeat char[3] options1 `it's`,
-}")).
-Eval vm_compute in ("<<<M1260>>>" ++ check (runes_of_ascii "
-packet As { repeat string
-    Logon `two words` , @calculatedFrom( """" ) zchar[ 7 ]chars`crlf
-line` ,@rightPad (
-    '\x00' ) repeat len
-u , uint16 // " ++ [27880; 37322]%N ++ runes_of_ascii "
-options1
-    , } packet
-u
-    { @leftPad
-    ( ' ' ) repeat a1 packetx, u32 a1 @calculatedFrom( """ ++ [128512]%N ++ runes_of_ascii """
-    ) , }packet As { repeat float32 options1
-    `doc`, repeat float32
-// trailing space 
-// trailing space 
-x_y_z
-,@calculatedFrom( """ ++ [28040; 24687]%N ++ runes_of_ascii """
-)u16
-    int`a\` , }")).
-Eval vm_compute in ("<<<M78>>>" ++ check (runes_of_ascii "packet stringy
-{  @calculatedFrom(""a	b""
-)uint8x,}
-// @lengthOf(
-// @lengthOf(
-root packet  i8i8
-{ @lengthOf( options1
-) @tag( 0 )
-    repeat
-metadata _x `" ++ [233]%N ++ runes_of_ascii "`	, repeat
-i8i8`
-` // a // b
-,
-repeat  char[ //x
-3 ]o , // " ++ [128512]%N ++ runes_of_ascii " emoji
-@calculatedFrom(""a	b""
-) repeat
-    u16 x `doc`
-,string_
-`tab	here`  , @calculatedFrom(
-    """ ++ [233]%N ++ runes_of_ascii "t" ++ [233]%N ++ runes_of_ascii """)@tag(	4294967296)
-repeat Logon stringy , } root
-    packet
-    tag { }")).
-Eval vm_compute in ("<<<M3882>>>" ++ check (runes_of_ascii "root
-
-    packet
-	u128 {
-match zchar
-
-as
-
-    msg_type // `tick` ""quote"" 'q'
-	{
-7 
-	    //	t
-  	:
-lengthOf
-
-    , 0123456789 :
-	MetaDataX	""{,}""
-
-:o  ,255  
-  // trailing space 
-  //
-  : 	 //
-	metadata ,
-[
-1 
-] :
-	A ,
-
-    [
-
-    007 ,""a\\""  ,0123456789
-
+,} ,
+	float64 OrderId 
 , 
-255 ,
-""\" ++ [233]%N ++ runes_of_ascii """
-,
+i32 
+f1 , float32 
+x
+,char[]seqNo,} ,
 
-007 ] 
-:
-
-// `tick` ""quote"" 'q'
-  	// packet A { u8 x, }
-  falsey
-,
-    }
-
-,	}	// a // b
-")).
-Eval vm_compute in ("<<<M797>>>" ++ check (runes_of_ascii "packet lengthOf {
-    @lengthOf( zchar//x
-)char[]// trailing space 
-metadata  , @tag(
-10 ) string leftPad
-,
-@lengthOf(i8i8  )//
-@leftPad
-    //x
-    (
-'\x00')
-    repeat Packet `a\`
-, options1 { float
-@calculatedFrom( ""it's""), repeat
-    calculatedFrom
-    i64_	,	}
-, uint8 A @lengthOf( leftPad
-) `two words`
-,
-} MetaData repeatCount { }MetaData u8x
-{}
-")).
-Eval vm_compute in ("<<<M4274>>>" ++ check (runes_of_ascii "packet chars {
-    @leftPad()
-    char[42] asx,
-    @tag(007)
-    matchKey As,
-    @leftPad('\x00')
-    msg_type `u8 x,`,
-    repeat charz {
-        int64 f32a,
-        Header {
-            u32 MetaDataX,
-            char[3] repeatCount @calculatedFrom(""packet"") `tab	here`,
-            repeat f64 Logon `
-            `,
-        },
-    },
-}//	t")).
-Eval vm_compute in ("<<<M3784>>>" ++ check (runes_of_ascii "
-packet
-	zchar	{
-
-    char[]
-
-i64_  , 
-
-    // " ++ [128512]%N ++ runes_of_ascii " emoji
-@calculatedFrom( ""// no comment""
+    repeat string seqNo
+	,}
+root	packet Heartbeat{ repeat
+Leg
+    ,
+	u32
+    seqNo  , u16 tag7,
+u32  Flags@lengthOf(	Body
 
     )
+	,
+match
+tag7
+    as
+Body
+	{
+[ 
+195  ,
+75
+
+]:
+
+Party
+    , 171 : Fill
+	,
+78 :Logon  ,142
+	:
+    Leg
+	,}
+,
+
+u32 Note @calculatedFrom(	""CRC32""  ), }
+")).
+Eval vm_compute in ("<<<M4447>>>" ++ check (runes_of_ascii "  root 	 // c
+      packet msg_type  {
+
+repeat 	 // packet A { u8 x, }
+    A	{
+	repeat 
+a1{
+
+repeat	len	// trailing space 
+  ,  },
+pack string_
+,
+
+zchar[7
+] msg_type
+	@lengthOf( 
+u
+) ,	}	,  repeat
+zchar[ // `tick` ""quote"" 'q'
+	00
+    ]tag,
+u64 o@calculatedFrom( 
+""a\\"" 
+	    // trailing space 
+	)
+	,
+
+}
+	packet
+    charz	{@tag(
+0) // c
+    	repeat
+// a // b
+
+	u
+
+{
+char[007 ] 
+T
+
+    , }  ,repeatCount @calculatedFrom( ""\n"" )
+, }
+packet
+trueish
+	{ 
+@calculatedFrom( 
+""a\\""	)  @rightPad
+	('0' )	// `tick` ""quote"" 'q'
+
+@lengthOf( BodyLength	) string
+    asx @lengthOf( A ), 
+    //x
+  /// triple
+@rightPad
+    ( ' ')  match
+pack 
+        // @lengthOf(
+
+	as
+
+leftPad
+	{
+[ 1
+
+    ]	// a // b
+  :body
+    ,	[
+
+    ""a	b""
+	]
+	:msg_type
+
+, // `tick` ""quote"" 'q'
+    10 : calculatedFrom
+    ,
+7 : packetx
+
+,
+
+    """ ++ [233]%N ++ runes_of_ascii "t" ++ [233]%N ++ runes_of_ascii """ : roots
+,	}
+
+,
+
+    @calculatedFrom(""1"")repeat	roots  
+      // c
+  	u8x	,
+}
+")).
+Eval vm_compute in ("<<<M4614>>>" ++ check (runes_of_ascii "packet	As
+{// " ++ [27880; 37322]%N ++ runes_of_ascii "
+	@leftPad
+	(  '0' 
+        /// triple
+
+)	@lengthOf(
+i64_)
+	// @lengthOf(
+	  /// triple
+@leftPad
+    (  '\x00'  )
+
+    calculatedFrom
+    f32a	,match
+
+x
+    as
+    x_y_z{ """"
+    // c
+  	:
+	body,
+
+    007 :
+o 
+,  [	""{,}""  ]
+: 
+As  ,
+""\n""
+    :
+
+    stringy
+,
+	4294967296 :roots
+    ,
+
+}
+
+    ,calculatedFrom , match Pad
+
+    as
+asx
+    {
+	[  """ ++ [28040; 24687]%N ++ runes_of_ascii """,""1""
+    ,	""a	b""
+
+,3
+
+,	""x y""
+
+    ,
+	00  , 10	, ""\" ++ [233]%N ++ runes_of_ascii """
+	] :  Pad  65535: x
+7
+: x_y_z 
+3  :
+charz ,
+""" ++ [233]%N ++ runes_of_ascii "t" ++ [233]%N ++ runes_of_ascii """ :
+lengthOf }, @calculatedFrom(	""{,}""
+)
+
+    @calculatedFrom( ""CRC32""
+
+)  @calculatedFrom(
+
+    ""a	b"" )  
+  /// triple
+	  // trailing space 
+	crc
+
+    As  /// triple
+	, 
+calculatedFrom{ char[] x ``, } 
+,
+
+@rightPad 	 // `tick` ""quote"" 'q'
+    	( '\x00'
+
+)
+repeat
+char[] asx  /// triple
+
+	`tab	here` ,
+    f32a {repeat char
+	u  , }  // `tick` ""quote"" 'q'
+, 
+} ")).
+Eval vm_compute in ("<<<M3690>>>" ++ check (runes_of_ascii "
+
+  //x
+	packet
+zchar
+{ match
+
+a1
+	as
+
+    BodyLength {
+    [// " ++ [128512]%N ++ runes_of_ascii " emoji
+      ""a\\""
+]: trueish ,} 
+,@leftPad  ( 
+      //	t
+    '0'
+)repeatCount	@calculatedFrom(""a	b""	)`tab	here`, int8
+
+    o
+	@lengthOf( i64_)
+	`u8 x,`
+    ,
+u8 chars ,
+}
+	packet
+
+    trueish {  @lengthOf(
+	crc
+
+)
+@calculatedFrom(
+""" ++ [128512]%N ++ runes_of_ascii """
+    )
+@calculatedFrom(
+	""`tick`""
+)  //x
 
 match
-
-charz as
-tag
-{ [  ""it's""  ,
-4294967296 ,  /// triple
-""a	b"", """ ++ [28040; 24687]%N ++ runes_of_ascii """ ,""" ++ [128512]%N ++ runes_of_ascii """
-	,
-    255
-,
-	007
-
-] // packet A { u8 x, }
-    : i64_  ,
-[0123456789	,3
-,00 ]
-
-    : // `tick` ""quote"" 'q'
-  Packet
-
-, 
-[ """ ++ [233]%N ++ runes_of_ascii "t" ++ [233]%N ++ runes_of_ascii """ ] 
+BodyLength  as	Z9_{ 
+3 
 :
-a1	,
+falsey
 
-} , 
-}
-")).
-Eval vm_compute in ("<<<M1986>>>" ++ check (runes_of_ascii "MetaData
-    u { }  options {
-// c
-// @lengthOf(
-float = int8 ;rootA =false ; As =	int16 // `tick` ""quote"" 'q'
-repeatCount
-    // trailing space 
-    =
-    int16
-; u8x =
-    //	t
-    '\x00' ; } options options	{
-    repeatCount
-= 0
-u128
-    //
-    = false ; i64_
-// trailing space 
-// `tick` ""quote"" 'q'
-= '0' ; //	t
-}
-")).
-Eval vm_compute in ("<<<M2003>>>" ++ check (runes_of_ascii "MetaData
-    u { }  options {
-// c
-// @lengthOf(
-float = int8 ;rootA =false ; As =	int16 // `tick` ""quote"" 'q'
-repeatCount
-    // trailing space 
-    =
-    int16
-; u8x =
-    //	t
-    '\x00' ; } options	{
-    repeatCount
-@tag( 0
-u128
-    //
-    = false ; i64_
-// trailing space 
-// `tick` ""quote"" 'q'
-= '0' ; //	t
-}
-")).
-Eval vm_compute in ("<<<M2008>>>" ++ check (runes_of_ascii "MetaData
-    u { }  options {
-// c
-// @lengthOf(
-float = int8 ;rootA =false ; As =	int16 // `tick` ""quote"" 'q'
-repeatCount
-    // trailing space 
-    =
-    int16
-; u8x =
-    //	t
-    '\x00' ; } options	{
-    repeatCount
-= f64
-u128
-    //
-    = false ; i64_
-// trailing space 
-// `tick` ""quote"" 'q'
-= '0' ; //	t
-}
-")).
-Eval vm_compute in ("<<<M1862>>>" ++ check (runes_of_ascii "MetaData
-    { u }  options {
-// c
-// @lengthOf(
-float = int8 ;rootA =false ; As =	int16 // `tick` ""quote"" 'q'
-repeatCount
-    // trailing space 
-    =
-    int16
-; u8x =
-    //	t
-    '\x00' ; } options	{
-    repeatCount
-= 0
-u128
-    //
-    = false ; i64_
-// trailing space 
-// `tick` ""quote"" 'q'
-= '0' ; //	t
-}
-")).
-Eval vm_compute in ("<<<M2007>>>" ++ check (runes_of_ascii "MetaData
-    u { }  options {
-// c
-// @lengthOf(
-float = int8 ;rootA =false ; As =	int16 // `tick` ""quote"" 'q'
-repeatCount
-    // trailing space 
-    =
-    int16
-; u8x =
-    //	t
-    '\x00' ; } options	{
-    repeatCount
-= u128
-0
-    //
-    = false ; i64_
-// trailing space 
-// `tick` ""quote"" 'q'
-= '0' ; //	t
-}
-")).
-Eval vm_compute in ("<<<M2025>>>" ++ check (runes_of_ascii "MetaData
-    u { }  options {
-// c
-// @lengthOf(
-float = int8 ;rootA =false ; As =	int16 // `tick` ""quote"" 'q'
-repeatCount
-    // trailing space 
-    =
-    int16
-; u8x =
-    //	t
-    '\x00' ; } options	{
-    repeatCount
-= 0
-u128
-    //
-    = false  i64_
-// trailing space 
-// `tick` ""quote"" 'q'
-= '0' ; //	t
-}
-")).
-Eval vm_compute in ("<<<M3890>>>" ++ check (runes_of_ascii "
-options
+[ 42  ,
+    00
+, 3  ,  10]
 
-{ LittleEndian  =
+:packetx,
+	255 :
+    metadata , } // trailing space 
+  ,repeat x_y_z Header 
+,
+    @calculatedFrom(
+	""CRC32""
+)  Z9_// trailing space 
+  	{	x 
 
+    // @lengthOf(
+    @calculatedFrom( 
+""1"" 
+	    // packet A { u8 x, }
+//x
+    )
+
+    `it's`, 
+    // packet A { u8 x, }
+  // trailing space 
+	string
+    Header,
+	},
+
+    @lengthOf( roots )  i64_,	} 
+        // @lengthOf(
+ 
+")).
+Eval vm_compute in ("<<<M4352>>>" ++ check (runes_of_ascii "root packet leftPad {
+    match As as A {
+        00 : i8i8,
+        ""x y"" : Packet,
+        ""abc"" : falsey,
+    },
+    float32 trueish,
+    @calculatedFrom(""1"")
+    u64 roots `line1
+        line2`,
+    @tag(42)
+    string int @lengthOf(Header),
+    @tag(1)
+    @lengthOf(float)
+    rootA Z9_,
+    match msg_type as metadata {
+        [7, 0123456789] : uint8x,
+        [255] : int,
+        // @lengthOf(
+        255 : lengthOf,
+        ""a\\"" : u128,
+        ""1"" : u128,
+    },
+    roots int `two words`,
+    repeat BodyLength asx,
+    lengthOf @lengthOf(packetx),
+    @lengthOf(a1)
+    char[10] x,
+}
+
+options {
+    f32a = '0';
+    chars = ' ';
+    Header = ' ';
+    i8i8 = zchar[007];
+    leftPad = ' ';
+}
+
+packet falsey {
+    @lengthOf(u8x)
+    x @lengthOf(tag),
+}")).
+Eval vm_compute in ("<<<M3862>>>" ++ check (runes_of_ascii "packet Foo {
+    @leftPad('\x00')
+    chars {
+        repeat char[] tag `// not a comment`,
+        repeat u8 T,
+        repeat Foo BodyLength `it's`,
+        zchar {
+            u repeatCount `" ++ [233]%N ++ runes_of_ascii "`,
+            Header,
+            repeat i64 u128,
+            repeat charz {
+                char[] leftPad,
+                zchar[42] lengthOf `{ , }`,
+            },
+        },
+    },
+    @calculatedFrom(""it's"")
+    Pad {
+        i16 f32a,
+        repeat char[10] x `{ , }`,
+        match metadata as o {
+            """ ++ [128512]%N ++ runes_of_ascii """ : metadata,
+            1 : rootA,
+        },
+    },
+    packetx `{ , }`,
+}
+
+packet falsey {
+}
+
+options {
+    MetaDataX = zchar[10];
+    string_ = '0';
+    i8i8 = true
+    _x = char[0123456789]
+}
+// a // b")).
+Eval vm_compute in ("<<<M560>>>" ++ check (runes_of_ascii "
+packet
+    a1 /// triple
+{ @lengthOf(
+    As
+)uint16 // " ++ [128512]%N ++ runes_of_ascii " emoji
+matchKey
+`line1
+line2` , }
+options { pack = 7 } packet
+    // " ++ [128512]%N ++ runes_of_ascii " emoji
+    packetx {@calculatedFrom(  ""packet"" ) int8 metadata
+@lengthOf(
+metadata
+    ) , @tag(	7 )
+    lengthOf @lengthOf( u128) // " ++ [128512]%N ++ runes_of_ascii " emoji
+, @rightPad (
+    )Header
+@lengthOf( msg_type
+)  ``,
+leftPad ,
+}
+packet
+    // packet A { u8 x, }
+    string_{ }  packet f32a { @leftPad ( '0'
+) @leftPad ( ' '
+    /// triple
+    )
+@leftPad (' '
+) x_y_z { char charz @calculatedFrom(
+""""  )
+//	t
+// trailing space 
+,
+repeat rootA
+repeatCount ,
+    // packet A { u8 x, }
+    repeat u128 f32a `// not a comment` ,},
+// " ++ [27880; 37322]%N ++ runes_of_ascii "
+// trailing space 
+} // packet A { u8 x, }")).
+Eval vm_compute in ("<<<M1160>>>" ++ check (runes_of_ascii "
+root
+    packet
+i8i8  {
+@tag( 3)  @tag( 3
+) match u128 as
+f32a
+    // packet A { u8 x, }
+    {//	t
+[
+0123456789
+    , ""a\""b"" ,
+0123456789 ,
+42 , ""// no comment"" ]
+    :
+    Foo }	, } packet Z9_ {@leftPad
+(
+'0' // packet A { u8 x, }
+)	char[] Pad @lengthOf(Z9_ ) `` , u8x u	`doc`
+,  @calculatedFrom(
+/// triple
+// @lengthOf(
+""{,}""
+    )falsey { u8x f32a , }
+,repeat	i8 metadata ,
+repeat i64
+i8i8, zchar[ 1]u
+,  string	crc `crlf
+line` ,// " ++ [128512]%N ++ runes_of_ascii " emoji
+match i8i8 as
+    matchKey { [ 0
+,	0123456789  ] : uint8x
+    ,
+},
+    metadata @calculatedFrom( ""CRC32"") `
+` ,	@lengthOf(_x ) @tag(	7 )
+    @tag( 00) repeat Packet matchKey`it's` , // " ++ [128512]%N ++ runes_of_ascii " emoji
+}
+")).
+Eval vm_compute in ("<<<M4305>>>" ++ check (runes_of_ascii "packet falsey {
+    float64 calculatedFrom `
+    `,/// triple
+    @tag(42)
+    repeatCount {
+        match repeatCount as A {
+            0 : f32a,
+        },
+        uint16 f32a @calculatedFrom(""a\\"") `// not a comment`,
+        crc {
+            char[3] Logon @calculatedFrom(""packet""),
+            repeat u128 {
+                zchar[42] lengthOf `crlf
+                line`,
+                Pad roots `line1
+                line2`,
+            },
+            // packet A { u8 x, }
+            // `tick` ""quote"" 'q'
+        },
+    },
+}
+
+packet uint8x {
+    repeat u8 body,
+}
+
+packet asx {
+    zchar[255] asx,
+}")).
+Eval vm_compute in ("<<<M255>>>" ++ check (runes_of_ascii "MetaData metadata { // `tick` ""quote"" 'q'
+msg_type
+Pad
+    , int8
+calculatedFrom, } MetaData msg_type{// packet A { u8 x, }
+}
+packet // a // b
+len {_x , }
+options { As =
+// a // b
+// c
 true
-
-;StringPrefixLenType
-=
-
-    u8;
-    ArrayPrefixLenType 
-=	u8 ;
+; // " ++ [27880; 37322]%N ++ runes_of_ascii "
+repeatCount
+    ='\x00' ; uint8x // packet A { u8 x, }
+= ""\" ++ [233]%N ++ runes_of_ascii """;
+    chars= true
+; }
+// " ++ [27880; 37322]%N ++ runes_of_ascii "
+// `tick` ""quote"" 'q'
+packet crc {matchKey @lengthOf( float	) ,
+@leftPad ( '0'
+    ) match	i8i8 as x
+{[ // " ++ [128512]%N ++ runes_of_ascii " emoji
+65535 ,
+    // trailing space 
+    10 , 4294967296
+] :repeatCount ,  ""// no comment"": stringy
+    ,} ,
+    @calculatedFrom(	""a	b""
+)crc
+// " ++ [27880; 37322]%N ++ runes_of_ascii "
+// trailing space 
+,
+    /// triple
     }
 
-packet
-	Ack 
-{}root
-packet Quote
-
-    {
-    Ack, InSym94 {repeat
-
-Ack  ,
-
-}
-, u16	msgKind ,
-u16 OrderId@lengthOf( Body
-	)
-	,	match
-msgKind 
-as	Body {
-
-    [110
-
-    ,48
-	]  :
-Ack,
-}
-,
-}
-
 ")).
-Eval vm_compute in ("<<<M433>>>" ++ check (runes_of_ascii "packet
-rootA {@lengthOf(	A ) @leftPad (
-    '0' )@lengthOf( _x ) char[ 0
-]
-// `tick` ""quote"" 'q'
+Eval vm_compute in ("<<<M3843>>>" ++ check (runes_of_ascii "
+options	{	roots
+= '\x00' lengthOf 
+=
+    true 
+;
+Packet= // `tick` ""quote"" 'q'
+	""packet"" ; o
+=  // packet A { u8 x, }
+	""packet""
+
+    ;
+    A  // " ++ [27880; 37322]%N ++ runes_of_ascii "
+    =
+        //
+  true ;  // trailing space 
+}
+
+packet  body  {	_x	,
+    zchar[65535 ]
+    Header @calculatedFrom( // trailing space 
+    """"  )
+`u8 x,`	,
+
+}
+    root packet 
+	//	t
+	  T	// trailing space 
+    {@tag( // trailing space 
+  	7
+) 
+@tag(
+	0
+    )
+@leftPad
+(  '0'
+)  // a // b
+    int64
+    x @lengthOf(  Packet )  ,
+
+    msg_type
+
+    stringy`" ++ [28040; 24687; 31867; 22411]%N ++ runes_of_ascii "` /// triple
+,
+
+    }	/// triple")).
+Eval vm_compute in ("<<<M861>>>" ++ check (runes_of_ascii "MetaData trueish
+    { char[]  i8i8 `" ++ [28040; 24687; 31867; 22411]%N ++ runes_of_ascii "` ,
+} packet calculatedFrom
+{ @calculatedFrom(""CRC32"")
+@lengthOf(u128 )
+    metadata // @lengthOf(
+stringy `u8 x,`
+, string
+i8i8@lengthOf( rootA
+    // `tick` ""quote"" 'q'
+    ) , @calculatedFrom(	""CRC32"" ) @calculatedFrom(	""packet"")@calculatedFrom(""""
+) zchar[42 ] body `" ++ [233]%N ++ runes_of_ascii "` , Packet , uint16  Logon ,
+rootA len
+`u8 x,` ,
+T @lengthOf(
 // a // b
-len , } root packet
-    _x
-{ @lengthOf( MetaDataX
-) u16 x
-`say ""hi""` , match
-    string_ as Foo{ 42  :
-string_
-    ,
-00: T , },char[]
-trueish ,repeat calculatedFrom // c
-x_y_z , // a // b
+// " ++ [27880; 37322]%N ++ runes_of_ascii "
+T), @rightPad ( ) repeat char[ // @lengthOf(
+255 ]//
+x_y_z
+,repeat uint16 len
+,
+@rightPad
+    ( ) calculatedFrom charz `crlf
+line`,
+}
+")).
+Eval vm_compute in ("<<<M3849>>>" ++ check (runes_of_ascii "root packet pack {
+    @calculatedFrom(""`tick`"")
+    @calculatedFrom(""\n"")
+    @tag(0123456789)
+    match zchar as string_ {
+        [""packet""] : i8i8,
+        [0123456789, 7] : string_,
+        //x
+        // `tick` ""quote"" 'q'
+        0 : options1,
+        ""\" ++ [233]%N ++ runes_of_ascii """ : Foo,
+    },
+    @lengthOf(calculatedFrom)
+    Foo @lengthOf(x) `crlf
+        line`,
+    lengthOf @lengthOf(int),
+    T,
+    @lengthOf(rootA)
+    zchar[007] x `crlf
+        line`,
+    @calculatedFrom(""\n"")
+    repeat f64 chars,
+    matchKey _x,
 }")).
-Eval vm_compute in ("<<<M3425>>>" ++ check (runes_of_ascii "// top
-packet
-    // c0
-o
-    // c1
-{
-    // c2
-repeat
-    // c3
-Logon
-    // c4
-uint8x
-    // c5
-,
-    // c6
-}
-    // c7
-options
-    // c8
-{
-    // c9
-asx
-    // c10
-=
-    // c11
-zchar[
-    // c12
-3
-    // c13
-]
-    // c14
-stringy
-    // c15
-=
-    // c16
-'\x00'
-    // c17
-}
-    // c18
-")).
-Eval vm_compute in ("<<<M116>>>" ++ check (runes_of_ascii "packet string_ { trueish
-{options1 @lengthOf( Z9_ ) `// not a comment` , // c
-_x
-    //	t
-    @lengthOf( u128), /// triple
-match packetx as charz{[
-1 , 3 ,
-""a\\"" //x
-,10 ] : lengthOf ,
-""" ++ [28040; 24687]%N ++ runes_of_ascii """
-:float	""CRC32"" : // a // b
-calculatedFrom
-, """ ++ [128512]%N ++ runes_of_ascii """ : tag , 00
-:
-rootA, }
-    ,} ,}")).
-Eval vm_compute in ("<<<M749>>>" ++ check (runes_of_ascii "
-MetaData o{ char[]BodyLength
-,
-}
-    options
-    { Foo=uint32 i8i8  = char[ 10
-    ];
-    Logon =  true i64_= string ;
-    }root
-//
-// @lengthOf(
-packet a1
-{ i8i8
-`tab	here` , @calculatedFrom( ""a	b""
-    ) string calculatedFrom
-    @calculatedFrom( ""abc"" )	``
-, }
-")).
-Eval vm_compute in ("<<<M963>>>" ++ check (runes_of_ascii "packet falsey {
+Eval vm_compute in ("<<<M800>>>" ++ check (runes_of_ascii "options {  }packet Packet
+    { repeat
+zchar[ 0123456789 ]
+    crc , repeat zchar[	4294967296
+]Z9_ ,// packet A { u8 x, }
+rootA ,repeat Packet
+    { lengthOf{
+u8x `{ , }` , zchar[ 0123456789 ] lengthOf
+`{ , }` , // " ++ [27880; 37322]%N ++ runes_of_ascii "
+Header { repeat
+// c
+//x
+f32 As `line1
+line2`	,
+    charz
+    @calculatedFrom( ""1""
+) , } , },},
+i8//	t
+float
+@lengthOf( T// packet A { u8 x, }
+) ,@lengthOf(
+    metadata )
+@calculatedFrom( ""packet""
     // a // b
-    char[]x_y_z @lengthOf(  u ) `two words` , } MetaData Packet
+    ) @lengthOf( repeatCount ) repeat
+f32 Foo	, } 	 ")).
+Eval vm_compute in ("<<<M1354>>>" ++ check (runes_of_ascii "options { Packet = u8 ; }packet  metadata // @lengthOf(
+{ charz {	match asx
+    as
+A
 {
-    char[
-3  ] rootA `line1
-line2`
+[ ""\n"",
+    // " ++ [128512]%N ++ runes_of_ascii " emoji
+    ""a\""b"" ]
+:string_
+""a\\"" :float
+    // @lengthOf(
+    , [ 10 ] :
+// c
+// a // b
+leftPad ,
+255:
+Packet
+,[ ""a	b"", ""a	b"" , """ ++ [28040; 24687]%N ++ runes_of_ascii """	, 42 ,
+// " ++ [27880; 37322]%N ++ runes_of_ascii "
+// packet A { u8 x, }
+""a\\"" ] :
+    repeatCount , [  255	, """ ++ [128512]%N ++ runes_of_ascii """ ,
+0123456789 // trailing space 
 ,
-    string
-    A ,
-} root packet string_ {uint8
-calculatedFrom  @lengthOf( u128 )
-`line1
-line2`, char[ 3] Z9_ ,float , }
-")).
-Eval vm_compute in ("<<<M1538>>>" ++ check (runes_of_ascii "packet
-//	t
+""" ++ [233]%N ++ runes_of_ascii "t" ++ [233]%N ++ runes_of_ascii """ ]: a1} , } , }  packet o {@calculatedFrom( ""\n"" )
+repeat len
+    ,
 // trailing space 
-_x {
-// packet A { u8 x, }
-// c
-char[
-3
-    ] u8x @lengthOf(
-u8x ) , , @calculatedFrom(""" ++ [128512]%N ++ runes_of_ascii """ // @lengthOf(
-)
-i16	Foo
-@lengthOf(	string_
-    )`doc`	, repeat	i64 metadata , @lengthOf( string_
-) i8 // c
-u  `line1
-line2`	,
-}
-")).
-Eval vm_compute in ("<<<M418>>>" ++ check (runes_of_ascii "/// triple
-root
-packet Logon{@calculatedFrom(	""CRC32""	) uint8x {
-roots pack  `line1
-line2`,},
-    string u
-    ,  }packet body {
-uint64 Logon ,
-}
-    root packet lengthOf { } packet A {u32 pack // `tick` ""quote"" 'q'
-@calculatedFrom(// c
-""" ++ [128512]%N ++ runes_of_ascii """ ) ,
+//
+body Logon
+,
     }")).
-Eval vm_compute in ("<<<M1610>>>" ++ check (runes_of_ascii "packet
-//	t
-// trailing space 
-_x {
-// packet A { u8 x, }
-// c
-char[
-3
-    ] u8x @lengthOf(
-u8x ) , @calculatedFrom(""" ++ [128512]%N ++ runes_of_ascii """ // @lengthOf(
-)
-i16	Foo
-@lengthOf(	string_
-    )`doc`	, repeat	i64 metadata ; @lengthOf( string_
-) i8 // c
-u  `line1
-line2`	,
+Eval vm_compute in ("<<<M4543>>>" ++ check (runes_of_ascii "// @lengthOf(
+MetaData msg_type {
 }
-")).
-Eval vm_compute in ("<<<M1492>>>" ++ check (runes_of_ascii "packet
-//	t
-// trailing space 
- {
-// packet A { u8 x, }
-// c
-char[
-3
-    ] u8x @lengthOf(
-u8x ) , @calculatedFrom(""" ++ [128512]%N ++ runes_of_ascii """ // @lengthOf(
-)
-i16	Foo
-@lengthOf(	string_
-    )`doc`	, repeat	i64 metadata , @lengthOf( string_
-) i8 // c
-u  `line1
-line2`	,
-}
-")).
-Eval vm_compute in ("<<<M1572>>>" ++ check (runes_of_ascii "packet
-//	t
-// trailing space 
-_x {
-// packet A { u8 x, }
-// c
-char[
-3
-    ] u8x @lengthOf(
-u8x ) , @calculatedFrom(""" ++ [128512]%N ++ runes_of_ascii """ // @lengthOf(
-)
-i16	Foo
-@lengthOf(	
-    )`doc`	, repeat	i64 metadata , @lengthOf( string_
-) i8 // c
-u  `line1
-line2`	,
-}
-")).
-Eval vm_compute in ("<<<M1637>>>" ++ check (runes_of_ascii "packet
-//	t
-// trailing space 
-_x {
-// packet A { u8 x, }
-// c
-char[
-3
-    ] u8x @lengthOf(
-u8x ) , @calculatedFrom(""" ++ [128512]%N ++ runes_of_ascii """ // @lengthOf(
-)
-i16	Foo
-@lengthOf(	string_
-    )`doc`	, repeat	i64 metadata , @lengthOf( string_
-) i8 // c
-u  	,
-}
-")).
-Eval vm_compute in ("<<<M993>>>" ++ check (runes_of_ascii "packet Logon { repeat
-    u64
-a1
-    //
-    `u8 x,`,uint16 string_ @lengthOf( BodyLength )
-, @tag( 7 ) @tag( 7 )@rightPad
-    (' '
-) metadata ,
-    repeat	char[ 007 ] Foo
-// `tick` ""quote"" 'q'
-// trailing space 
-`u8 x,` , }
 
-")).
-Eval vm_compute in ("<<<M4420>>>" ++ check (runes_of_ascii "options {
-    x_y_z = f64
-}// " ++ [27880; 37322]%N ++ runes_of_ascii "
+MetaData Logon {
+    i64 uint8x,
+    o u128,
+}
 
-root packet As {
-    @tag(255)
-    string BodyLength,
-    @leftPad()
-    match Foo as body {
-        007 : i8i8,
-        42 : metadata,
-        // @lengthOf(
-        """" : body,
+packet body {
+    @calculatedFrom(""a	b"")
+    uint8x ``,
+}
+
+root packet roots {
+    repeat len f32a `crlf
+    line`,
+    @rightPad('\x00')
+    repeat i8i8 {
+        zchar @lengthOf(packetx) `a\`,
+        repeat msg_type,
+        char[] o `" ++ [233]%N ++ runes_of_ascii "`,
+        char[42] roots,
+        //x
+        // `tick` ""quote"" 'q'
+    },
+}
+
+MetaData pack {
+    repeatCount charz,
+}")).
+Eval vm_compute in ("<<<M821>>>" ++ check (runes_of_ascii "
+options { }options
+{ } options
+{ }
+    packet options1 {
+/// triple
+// @lengthOf(
+repeat stringy repeatCount	, int64 rootA
+    ,@lengthOf(
+    T)
+// trailing space 
+// @lengthOf(
+chars Foo `line1
+line2`, i64_ , repeat tag roots, @calculatedFrom(""CRC32""
+) //x
+@calculatedFrom( """ ++ [233]%N ++ runes_of_ascii "t" ++ [233]%N ++ runes_of_ascii """)
+a1 @calculatedFrom(
+    /// triple
+    ""1"" )`two words` , }options {Logon =false uint8x	= ""x y""
+Header = ""a	b"" ;
+    calculatedFrom= true
+}
+")).
+Eval vm_compute in ("<<<M1153>>>" ++ check (runes_of_ascii "packet asx {@tag(// trailing space 
+00 )
+options1, string repeatCount @calculatedFrom( ""// no comment"" ) `// not a comment`,	@leftPad
+(
+    '0')
+@tag(
+    42) packetx @lengthOf(msg_type
+// " ++ [128512]%N ++ runes_of_ascii " emoji
+/// triple
+) `{ , }` // packet A { u8 x, }
+,  }  packet
+roots { @tag(	1 ) // `tick` ""quote"" 'q'
+@tag( 1 ) @lengthOf( // @lengthOf(
+BodyLength ) char[ 0123456789
+]MetaDataX , /// triple
+} MetaData	string_ { }
+")).
+Eval vm_compute in ("<<<M3841>>>" ++ check (runes_of_ascii "root packet x {
+    @calculatedFrom(""a\\"")
+    zchar[42] float @calculatedFrom(""a\""b"") `
+        `,
+}
+
+MetaData o {
+    int8 BodyLength,
+    string len,
+    string len,
+    float falsey,
+    T float,
+}
+
+MetaData pack {
+    /// triple
+    charz o `// not a comment`,
+    float64 f32a `tab	here`,
+    int32 u8x `// not a comment`,
+    char[10] a1,
+    float32 options1,
+}// `tick` ""quote"" 'q'")).
+Eval vm_compute in ("<<<M4010>>>" ++ check (runes_of_ascii "packet
+
+i8i8 { 
+match  tag
+as  i8i8  {	""" ++ [28040; 24687]%N ++ runes_of_ascii """
+: pack , 3  : rootA	, [
+
+1 
+,//	t
+
+  3] :
+    falsey
+
+, }  ,
+// " ++ [128512]%N ++ runes_of_ascii " emoji
+// trailing space 
+
+  zchar[ 10 
+]string_
+    ,  // @lengthOf(
+
+} packet
+
+    falsey {string 
+chars
+,  uint8x	, @lengthOf( packetx
+    )  char[]Packet, } 
+MetaData a1
+{
+	chars 
+roots
+        //
+`crlf
+line`
+
+, /// triple
+
+asx
+zchar
+
+    ,
+
+    } ")).
+Eval vm_compute in ("<<<M113>>>" ++ check (runes_of_ascii "packet body { Pad {a1`crlf
+line`
+    , zchar[ 007] a1 ,char[10 ] x_y_z  ,
+repeat
+zchar[ 1  ] metadata `u8 x,` , } , string  trueish
+,repeat uint8x u ,	@tag( /// triple
+007 ) calculatedFrom
+{repeat BodyLength
+`doc` ,
+    }/// triple
+, int64 lengthOf,/// triple
+@lengthOf(
+leftPad) @calculatedFrom( ""x y"" ) @calculatedFrom( // " ++ [27880; 37322]%N ++ runes_of_ascii "
+""\" ++ [233]%N ++ runes_of_ascii """ )  falsey a1 , }")).
+Eval vm_compute in ("<<<M4561>>>" ++ check (runes_of_ascii "options {
+    string_ = true;
+}
+
+options {
+    T = false
+}
+
+packet u8x {
+    @lengthOf(int)
+    zchar[255] BodyLength,
+}// trailing space 
+
+root packet f32a {
+}
+
+packet roots {
+    Foo,
+    repeat char[007] Pad,
+    repeat int8 packetx,
+    match Z9_ as T {
+        00 : A,
+        ""a\""b"" : falsey,
+        //
+        ""CRC32"" : a1,
     },
 }")).
-Eval vm_compute in ("<<<M1719>>>" ++ check (runes_of_ascii "options { trueish = ""`tick`"" ; string_= """ ++ [233]%N ++ runes_of_ascii "t" ++ [233]%N ++ runes_of_ascii """
-    // c
-    MetaDataX root
-    packet body { stringy @calculatedFrom(
-""a	b"" ) `line1
-line2` , }
-packet Logon {
-    @leftPad(
-    ' ' ) //	t
-u16 string_ `u8 x,` ,
+Eval vm_compute in ("<<<M3781>>>" ++ check (runes_of_ascii "options{} 
+root
+    // a // b
+      packet  x //	t
+      {	match
+len
+as
+
+x
+
+    { [7  ,
+42
+	,007,	//x
+  255// trailing space 
+	,""// no comment""
+// `tick` ""quote"" 'q'
+	// " ++ [128512]%N ++ runes_of_ascii " emoji
+  ]: x_y_z
+,
+	""`tick`"" :
+
+u128 ,3  :
+string_ 
+  /// triple
+, [
+    ""CRC32""
+    ] :trueish,  4294967296
+: Foo
+,
+[
+
+0 
+] :lengthOf 
+}
+,
+}
+
+")).
+Eval vm_compute in ("<<<M1963>>>" ++ check (runes_of_ascii "MetaData
+    u { }  options {
+// c
+// @lengthOf(
+float = int8 ;rootA =false ; As =	int16 // `tick` ""quote"" 'q'
+repeatCount
+    // trailing space 
+    =
+    int16
+; @leftPad =
+    //	t
+    '\x00' ; } options	{
+    repeatCount
+= 0
+u128
+    //
+    = false ; i64_
+// trailing space 
+// `tick` ""quote"" 'q'
+= '0' ; //	t
 }
 ")).
-Eval vm_compute in ("<<<M1709>>>" ++ check (runes_of_ascii "options { trueish = ""`tick`"" ; string_""abc"" """ ++ [233]%N ++ runes_of_ascii "t" ++ [233]%N ++ runes_of_ascii """
+Eval vm_compute in ("<<<M1921>>>" ++ check (runes_of_ascii "MetaData
+    u { }  options {
+// c
+// @lengthOf(
+float = int8 ;rootA =false ; ; As =	int16 // `tick` ""quote"" 'q'
+repeatCount
+    // trailing space 
+    =
+    int16
+; u8x =
+    //	t
+    '\x00' ; } options	{
+    repeatCount
+= 0
+u128
+    //
+    = false ; i64_
+// trailing space 
+// `tick` ""quote"" 'q'
+= '0' ; //	t
+}
+")).
+Eval vm_compute in ("<<<M2059>>>" ++ check (runes_of_ascii "MetaData
+    u { }  options {
+// c
+// @lengthOf(
+float = int8 ;rootA =false ; As =	int16 // `tick` ""quote"" 'q'
+repeatCount
+    // trailing space 
+    =
+    int16
+; u8x =
+    //	t
+    '\x00' ; } options	{
+    repeatCount
+""= 0
+u128
+    //
+    = false ; i64_
+// trailing space 
+// `tick` ""quote"" 'q'
+= '0' ; //	t
+}
+")).
+Eval vm_compute in ("<<<M1962>>>" ++ check (runes_of_ascii "MetaData
+    u { }  options {
+// c
+// @lengthOf(
+float = int8 ;rootA =false ; As =	int16 // `tick` ""quote"" 'q'
+repeatCount
+    // trailing space 
+    =
+    int16
+; = u8x
+    //	t
+    '\x00' ; } options	{
+    repeatCount
+= 0
+u128
+    //
+    = false ; i64_
+// trailing space 
+// `tick` ""quote"" 'q'
+= '0' ; //	t
+}
+")).
+Eval vm_compute in ("<<<M1900>>>" ++ check (runes_of_ascii "MetaData
+    u { }  options {
+// c
+// @lengthOf(
+float = int8 rootA =false ; As =	int16 // `tick` ""quote"" 'q'
+repeatCount
+    // trailing space 
+    =
+    int16
+; u8x =
+    //	t
+    '\x00' ; } options	{
+    repeatCount
+= 0
+u128
+    //
+    = false ; i64_
+// trailing space 
+// `tick` ""quote"" 'q'
+= '0' ; //	t
+}
+")).
+Eval vm_compute in ("<<<M1938>>>" ++ check (runes_of_ascii "MetaData
+    u { }  options {
+// c
+// @lengthOf(
+float = int8 ;rootA =false ; As =	[ // `tick` ""quote"" 'q'
+repeatCount
+    // trailing space 
+    =
+    int16
+; u8x =
+    //	t
+    '\x00' ; } options	{
+    repeatCount
+= 0
+u128
+    //
+    = false ; i64_
+// trailing space 
+// `tick` ""quote"" 'q'
+= '0' ; //	t
+}
+")).
+Eval vm_compute in ("<<<M4432>>>" ++ check (runes_of_ascii "// top
+options {
+    // c1a
+    // c1b
+    FixedStringPadChar = '0';// c5
+}// c6
+
+packet Q {
+    // c9
+    zchar[4] z,
+    // c14
+    @rightPad('\x00')
+    // c18
+    char[3] n,
+    char[5] d,
+    // c28
+}
+
+root packet R {
+    // c33
+    Q,// c35
+    zchar[8] top,
+    repeat zchar[2] zs,// c46
+}
+// c47")).
+Eval vm_compute in ("<<<M500>>>" ++ check (runes_of_ascii "root
+packet u8x {// @lengthOf(
+i16
+    metadata @lengthOf(
+metadata
+) `u8 x,`
+    ,zchar[ 7 ] stringy@calculatedFrom( ""abc""  )
+    `" ++ [233]%N ++ runes_of_ascii "` // trailing space 
+, @rightPad
+( // a // b
+'0' )
+match Header as
+f32a { //	t
+""" ++ [28040; 24687]%N ++ runes_of_ascii """// c
+:calculatedFrom
+,[ 10
+]
+:o , ""// no comment"" :As ""\" ++ [233]%N ++ runes_of_ascii """
+: rootA ,},
+}")).
+Eval vm_compute in ("<<<M3804>>>" ++ check (runes_of_ascii "// trailing space 
+packet pack {
+    @lengthOf(Pad)
+    char[] msg_type,
+}
+
+options {
+    // " ++ [128512]%N ++ runes_of_ascii " emoji
+    // " ++ [128512]%N ++ runes_of_ascii " emoji
+    chars = int32;//
+    chars = ""CRC32""
+}
+
+packet f32a {
+    @calculatedFrom(""a\""b"")
+    zchar @lengthOf(o),
+    int32 o,
+    repeat int64 zchar `" ++ [28040; 24687; 31867; 22411]%N ++ runes_of_ascii "`,
+}/// triple")).
+Eval vm_compute in ("<<<M1078>>>" ++ check (runes_of_ascii "root packet Logon { string MetaDataX @calculatedFrom( ""\" ++ [233]%N ++ runes_of_ascii """ )// a // b
+`two words` , @leftPad
+( '\x00' //x
+) len a1 , // @lengthOf(
+@tag( 0123456789 )
+    repeat char[]
+f32a , repeat uint16 pack
+    ,}
+MetaData
+rootA { BodyLength Z9_ `{ , }` ,
+    zchar[65535 ] u ,
+}
+")).
+Eval vm_compute in ("<<<M613>>>" ++ check (runes_of_ascii "MetaData BodyLength {  zchar[ 00 ]a1 ,
+i64 A
+`" ++ [233]%N ++ runes_of_ascii "` , int8 i8i8
+`doc`
+,char[ 1 ]Header
+``// " ++ [128512]%N ++ runes_of_ascii " emoji
+, } options
+    {asx
+=
+false;
+    T=	""CRC32""u8x
+= ' '
+    float =
+3 } packet o /// triple
+{ @rightPad( '0'
+    // a // b
+    ) calculatedFrom `crlf
+line` ,}")).
+Eval vm_compute in ("<<<M1535>>>" ++ check (runes_of_ascii "packet
+//	t
+// trailing space 
+_x {
+// packet A { u8 x, }
+// c
+char[
+3
+    ] u8x @lengthOf(
+u8x match , @calculatedFrom(""" ++ [128512]%N ++ runes_of_ascii """ // @lengthOf(
+)
+i16	Foo
+@lengthOf(	string_
+    )`doc`	, repeat	i64 metadata , @lengthOf( string_
+) i8 // c
+u  `line1
+line2`	,
+}
+")).
+Eval vm_compute in ("<<<M1648>>>" ++ check (runes_of_ascii "packet
+//	t
+// trailing space 
+_x {
+// packet A { u8 x, }
+// c
+char[
+3
+    ] u8x @lengthOf(
+u8x ) , @calculatedFrom(""" ++ [128512]%N ++ runes_of_ascii """ // @lengthOf(
+)
+i16	Foo
+@lengthOf(	string_
+    )`doc`	, repeat	i64 metadata , @lengthOf( string_
+) i8 // c
+u  `line1
+line2`	,
+} }
+")).
+Eval vm_compute in ("<<<M1514>>>" ++ check (runes_of_ascii "packet
+//	t
+// trailing space 
+_x {
+// packet A { u8 x, }
+// c
+char[
+3
+    u8x ] @lengthOf(
+u8x ) , @calculatedFrom(""" ++ [128512]%N ++ runes_of_ascii """ // @lengthOf(
+)
+i16	Foo
+@lengthOf(	string_
+    )`doc`	, repeat	i64 metadata , @lengthOf( string_
+) i8 // c
+u  `line1
+line2`	,
+}
+")).
+Eval vm_compute in ("<<<M3662>>>" ++ check (runes_of_ascii "options {
+    LittleEndian = true;
+}
+packet Logon {
+    u8 x,
+    string user,
+}
+packet Logout {
+    u16 reason,
+}
+packet Empty {
+}
+root packet Frame {
+    u16 MsgType,
+    u16 BodyLen @lengthOf(Body),
+    u8 flags,
+    Logon Body,
+    u32 trailer,
+}
+")).
+Eval vm_compute in ("<<<M781>>>" ++ check (runes_of_ascii "
+packet As {
+@calculatedFrom(""" ++ [28040; 24687]%N ++ runes_of_ascii """ ) @rightPad ( ' '
+)@leftPad(
+    ) rootA `crlf
+line` , }
+options {len=0
+; Z9_= ""\n"" ;repeatCount
+=
+    //x
+    ""// no comment"" ; /// triple
+calculatedFrom =
+int64  chars = ""\n"" }	options
+{ // trailing space 
+}")).
+Eval vm_compute in ("<<<M1612>>>" ++ check (runes_of_ascii "packet
+//	t
+// trailing space 
+_x {
+// packet A { u8 x, }
+// c
+char[
+3
+    ] u8x @lengthOf(
+u8x ) , @calculatedFrom(""" ++ [128512]%N ++ runes_of_ascii """ // @lengthOf(
+)
+i16	Foo
+@lengthOf(	string_
+    )`doc`	, repeat	i64 metadata ,  string_
+) i8 // c
+u  `line1
+line2`	,
+}
+")).
+Eval vm_compute in ("<<<M4156>>>" ++ check (runes_of_ascii "
+packet
+
+    Foo {	@tag( 0 )
+    @lengthOf( 
+Packet 
+	// packet A { u8 x, }
+    // packet A { u8 x, }
+	)
+zchar[ 65535
+    ]	chars  `it's`
+, 
+float
+
+    @lengthOf(
+    repeatCount
+    )
+
+`line1
+line2`
+
+    , } options  {
+
+} ")).
+Eval vm_compute in ("<<<M260>>>" ++ check (runes_of_ascii "
+packet
+crc{ } options
+{ len= '0' } packet uint8x {T  charz `u8 x,` ,
+}
+    MetaData  packetx //	t
+{
+// `tick` ""quote"" 'q'
+// trailing space 
+} options
+    { Header
+    =""CRC32""
+;
+    charz =
+    string MetaDataX
+=
+true ;}
+")).
+Eval vm_compute in ("<<<M3537>>>" ++ check (runes_of_ascii "// top
+packet // c0a
+  // c0b
+Inner // c1
+{ // c2
+u8 a // c4a
+  // c4b
+, // c5a
+  // c5b
+} root // c7a
+  // c7b
+packet
+    // c8
+P
+    // c9
+{ repeat Inner items // c13a
+  // c13b
+, // c14
+u8 x
+    // c16
+, // c17
+} ")).
+Eval vm_compute in ("<<<M1702>>>" ++ check (runes_of_ascii "options { trueish = ""`tick`"" ; string_ string_= """ ++ [233]%N ++ runes_of_ascii "t" ++ [233]%N ++ runes_of_ascii """
     // c
     } root
     packet body { stringy @calculatedFrom(
@@ -2328,6 +2141,17 @@ packet Logon {
     ' ' ) //	t
 u16 string_ `u8 x,` ,
 }
+")).
+Eval vm_compute in ("<<<M79>>>" ++ check (runes_of_ascii "root packet Foo {i16 BodyLength `// not a comment`
+    // c
+    ,
+    //x
+    }options { // packet A { u8 x, }
+} options
+    {Z9_ = // trailing space 
+false msg_type //
+=
+true f32a = ' ' zchar  =""`tick`"";}
 ")).
 Eval vm_compute in ("<<<M1842>>>" ++ check (runes_of_ascii "options { truei''sh = ""`tick`"" ; string_= """ ++ [233]%N ++ runes_of_ascii "t" ++ [233]%N ++ runes_of_ascii """
     // c
@@ -2353,18 +2177,16 @@ packet Logon {
 u16 string_ `u8 x,` ,
 }
 ")).
-Eval vm_compute in ("<<<M1676>>>" ++ check (runes_of_ascii "options  trueish = ""`tick`"" ; string_= """ ++ [233]%N ++ runes_of_ascii "t" ++ [233]%N ++ runes_of_ascii """
-    // c
-    } root
-    packet body { stringy @calculatedFrom(
-""a	b"" ) `line1
-line2` , }
-packet Logon {
-    @leftPad(
-    ' ' ) //	t
-u16 string_ `u8 x,` ,
+Eval vm_compute in ("<<<M1349>>>" ++ check (runes_of_ascii "
+root
+    packet x_y_z{@lengthOf( _x ) _x  @lengthOf( trueish)	,} packet
+    BodyLength {// packet A { u8 x, }
 }
-")).
+    // " ++ [128512]%N ++ runes_of_ascii " emoji
+    MetaData // @lengthOf(
+a1 { Pad
+    repeatCount	,i16 zchar `` ,//	t
+}")).
 Eval vm_compute in ("<<<M1616>>>" ++ check (runes_of_ascii "packet
 //	t
 // trailing space 
@@ -2379,141 +2201,88 @@ u8x ) , @calculatedFrom(""" ++ [128512]%N ++ runes_of_ascii """ // @lengthOf(
 i16	Foo
 @lengthOf(	string_
     )`doc`	, repeat	i64 metadata ,")).
-Eval vm_compute in ("<<<M1791>>>" ++ check (runes_of_ascii "options { trueish = ""`tick`"" ; string_= """ ++ [233]%N ++ runes_of_ascii "t" ++ [233]%N ++ runes_of_ascii """
+Eval vm_compute in ("<<<M52>>>" ++ check (runes_of_ascii "  root packet _x// " ++ [128512]%N ++ runes_of_ascii " emoji
+{@lengthOf(// c
+Packet ) float32 stringy  @calculatedFrom(
+""x y"" ) `say ""hi""`, match Pad as
+x_y_z{ ""a\\"" : float , 65535 : stringy 007: /// triple
+uint8x ,
+    } , }
+")).
+Eval vm_compute in ("<<<M4062>>>" ++ check (runes_of_ascii "root packet Foo {
+    i16 BodyLength `// not a comment`,
+    //x
+}
+
+options {
+    // packet A { u8 x, }
+}
+
+options {
+    Z9_ = false
+    msg_type = true
+    f32a = ' '
+    zchar = ""`tick`"";
+}")).
+Eval vm_compute in ("<<<M4096>>>" ++ check (runes_of_ascii "MetaData lengthOf {
+    char[0123456789] calculatedFrom,
+    char[0] options1,
+}
+
+MetaData repeatCount {
+    // packet A { u8 x, }
+    u64 len,
+    stringy x_y_z `it's`,
+    f32 As,
+}")).
+Eval vm_compute in ("<<<M4441>>>" ++ check (runes_of_ascii "  packet
+    A	//
+	{
+    @tag( 255
+	) @lengthOf( 
+// packet A { u8 x, }
+	//
+	x
+)u	`crlf
+line`
+
+    , repeat
+	body	{	zchar[ 00
+        //	t
+	  ]  crc `a\` , }  // c
+
+	,
+}")).
+Eval vm_compute in ("<<<M1836>>>" ++ check (runes_of_ascii "options { trueish = ""`tick`"" ; string_= """ ++ [233]%N ++ runes_of_ascii "t" ++ [233]%N ++ runes_of_ascii """
     // c
     } root
     packet body { stringy @calculatedFrom(
 ""a	b"" ) `line1
 line2` , }
 packet Logon {
-    (
-    ' ' ) //	t
-u16 string_ `u8 x,` ,
-}
-")).
-Eval vm_compute in ("<<<M3590>>>" ++ check (runes_of_ascii "// top
-packet // c0
-orderItem // c1a
-  // c1b
-{ u8 // c3
-a // c4
-, } // c6
-root
-    // c7
-packet // c8a
-  // c8b
-newOrder // c9
-{
-    // c10
-orderItem , // c12a
-  // c12b
-u8
-    // c13
-x , } ")).
-Eval vm_compute in ("<<<M4086>>>" ++ check (runes_of_ascii "options {
-    trueish = ""`tick`"";
-    string_ = """ ++ [233]%N ++ runes_of_ascii "t" ++ [233]%N ++ runes_of_ascii """
-}
+    @leftPad(
+    ' ")).
+Eval vm_compute in ("<<<M4492>>>" ++ check (runes_of_ascii "root	packet  rootA 
 
-root packet body {
-    stringy @calculatedFrom(""a	b""),
-}
-
-packet Logon {
-    @leftPad(' ')
+    /// triple
     //	t
-    u16 string_ `u8 x,`,
-}")).
-Eval vm_compute in ("<<<M1591>>>" ++ check (runes_of_ascii "packet
-//	t
-// trailing space 
-_x {
-// packet A { u8 x, }
-// c
-char[
-3
-    ] u8x @lengthOf(
-u8x ) , @calculatedFrom(""" ++ [128512]%N ++ runes_of_ascii """ // @lengthOf(
-)
-i16	Foo
-@lengthOf(	string_
-    )`doc`")).
-Eval vm_compute in ("<<<M384>>>" ++ check (runes_of_ascii "
-options{ }MetaData len {	crc Foo,
-    char[]
-x_y_z `// not a comment` ,  } options  {a1= """ ++ [128512]%N ++ runes_of_ascii """ ; _x  =
-0123456789 _x =
-true u8x
-    = ""packet"" trueish=string// " ++ [27880; 37322]%N ++ runes_of_ascii "
-;} //")).
-Eval vm_compute in ("<<<M3673>>>" ++ check (runes_of_ascii "packet A {
-    match k as n {
-        [
-            22, 4, 66, 8, 10,
-            ""a"", ""c c"", ""e"", ""g"", ""i"",
-            ""k""
-        ] : B,
-        2 : C,
-    },
-}")).
-Eval vm_compute in ("<<<M234>>>" ++ check (runes_of_ascii "options
-{ f32a= zchar[3
-//
-// c
-]
-// " ++ [128512]%N ++ runes_of_ascii " emoji
-//	t
-}	packet falsey
-{
-Z9_ ,body
-    @calculatedFrom( //
-""\n""
-// packet A { u8 x, }
-// c
-)
-    ,} options { }
+	{
+
+@lengthOf(
+	A
+) zchar[ 65535  ]
+	len`a\`, }
+	root
+packet
+    packetx	{  uint8 
+i8i8
+
+    ,
+} 
+        // c
+ 
 ")).
-Eval vm_compute in ("<<<M2370>>>" ++ check (runes_of_ascii "// c
-packet x { @lengthOf( metadata ) repeat lengthOf
-,a1{
-trueish	,// c
-repeat//	t
-MetaDataX , } , zchar[
-    42	] rootA // `tick` ""quote"" 'q'
-,
-    true
-")).
-Eval vm_compute in ("<<<M2314>>>" ++ check (runes_of_ascii "// c
-packet x { @lengthOf( metadata ) repeat lengthOf
-,a1 trueish
-{	,// c
-repeat//	t
-MetaDataX , } , zchar[
-    42	] rootA // `tick` ""quote"" 'q'
-,
-    }
-")).
-Eval vm_compute in ("<<<M2334>>>" ++ check (runes_of_ascii "// c
-packet x { @lengthOf( metadata ) repeat lengthOf
-,a1{
-trueish	,// c
-repeat//	t
-MetaDataX , } , zchar[
-    42	] , // `tick` ""quote"" 'q'
-rootA
-    }
-")).
-Eval vm_compute in ("<<<M2354>>>" ++ check (runes_of_ascii "// c
-packet x { @lengthOf( metadata ) char[ lengthOf
-,a1{
-trueish	,// c
-repeat//	t
-MetaDataX , } , zchar[
-    42	] rootA // `tick` ""quote"" 'q'
-,
-    }
-")).
-Eval vm_compute in ("<<<M2171>>>" ++ check (runes_of_ascii "options{
+Eval vm_compute in ("<<<M2077>>>" ++ check (runes_of_ascii "options options{
 _x
 = true
 } options
@@ -2523,15 +2292,41 @@ false
 = ""\n"" } root packet	Pad
 /// triple
 // packet A { u8 x, }
-chars	{
+{	chars
     // a // b
     ,}")).
-Eval vm_compute in ("<<<M2127>>>" ++ check (runes_of_ascii "options{
+Eval vm_compute in ("<<<M2172>>>" ++ check (runes_of_ascii "options{
 _x
 = true
 } options
 { o	= /// triple
-u64
+false
+    ; chars
+= ""\n"" } root packet	Pad
+/// triple
+// packet A { u8 x, }
+uint64	chars
+    // a // b
+    ,}")).
+Eval vm_compute in ("<<<M1091>>>" ++ check (runes_of_ascii "// " ++ [128512]%N ++ runes_of_ascii " emoji
+packet// @lengthOf(
+string_ {@calculatedFrom(
+""" ++ [233]%N ++ runes_of_ascii "t" ++ [233]%N ++ runes_of_ascii """) repeat
+    i64 MetaDataX  , u64 i8i8
+    `a\`
+,
+    As
+//
+// " ++ [27880; 37322]%N ++ runes_of_ascii "
+, // packet A { u8 x, }
+}
+")).
+Eval vm_compute in ("<<<M2201>>>" ++ check (runes_of_ascii "options{
+_x
+= true
+} \ options
+{ o	= /// triple
+false
     ; chars
 = ""\n"" } root packet	Pad
 /// triple
@@ -2539,201 +2334,312 @@ u64
 {	chars
     // a // b
     ,}")).
-Eval vm_compute in ("<<<M4551>>>" ++ check (runes_of_ascii "root packet BodyLength {
-    @lengthOf(asx)
-    repeat char[007] matchKey,
-    char[] MetaDataX @lengthOf(Foo) `tab	here`,
-    repeat uint64 f32a,
-}")).
-Eval vm_compute in ("<<<M4343>>>" ++ check (runes_of_ascii "root packet x_y_z {
-    @lengthOf(_x)
-    _x @lengthOf(trueish),
-}
+Eval vm_compute in ("<<<M2199>>>" ++ check (runes_of_ascii "options{
+_x
+= true
+} options
+{ o	= /// triple
+false
+    ; chars
+= '""\n"" } root packet	Pad
+/// triple
+// packet A { u8 x, }
+{	chars
+    // a // b
+    ,}")).
+Eval vm_compute in ("<<<M2141>>>" ++ check (runes_of_ascii "options{
+_x
+= true
+} options
+{ o	= /// triple
+false
+    ; chars
+""\n"" = } root packet	Pad
+/// triple
+// packet A { u8 x, }
+{	chars
+    // a // b
+    ,}")).
+Eval vm_compute in ("<<<M2169>>>" ++ check (runes_of_ascii "options{
+_x
+= true
+} options
+{ o	= /// triple
+false
+    ; chars
+= ""\n"" } root packet	Pad
+/// triple
+// packet A { u8 x, }
+	chars
+    // a // b
+    ,}")).
+Eval vm_compute in ("<<<M2079>>>" ++ check (runes_of_ascii "f64{
+_x
+= true
+} options
+{ o	= /// triple
+false
+    ; chars
+= ""\n"" } root packet	Pad
+/// triple
+// packet A { u8 x, }
+{	chars
+    // a // b
+    ,}")).
+Eval vm_compute in ("<<<M4409>>>" ++ check (runes_of_ascii "
+options{	x_y_z = """ ++ [128512]%N ++ runes_of_ascii """
 
-packet BodyLength {
-}
+    /// triple
+// @lengthOf(
+	options1 =  ""a\\""
 
-MetaData a1 {
-    Pad repeatCount,
-    i16 zchar ``,
-}")).
-Eval vm_compute in ("<<<M4449>>>" ++ check (runes_of_ascii "packet A {
-    match k as n {
-        [
-            1, 22, 4, 5, 7,
-            8, 10, ""c c"", ""f"", ""i""
-        ] : B,
-        2 : C,
-    },
-}")).
-Eval vm_compute in ("<<<M3360>>>" ++ check (runes_of_ascii "// top
-packet // c0
-x // c1
-{ // c2
-@rightPad // c3
-( // c4
-) // c5
-repeat // c6
-roots // c7
-Logon // c8
-`doc` // c9
-, // c10
-} // c11
-")).
-Eval vm_compute in ("<<<M698>>>" ++ check (runes_of_ascii "MetaData Z9_ {
-    } packet lengthOf {
-@tag(
-    00	) u32
-trueish , // trailing space 
-repeat string roots
-`doc`	,
-} // " ++ [128512]%N ++ runes_of_ascii " emoji")).
-Eval vm_compute in ("<<<M4269>>>" ++ check (runes_of_ascii "// c
-root packet matchKey {
-    zchar[3] pack @calculatedFrom(""a	b"") `doc`,
-}
-
+    ;	x_y_z
+    = 
+255 ;
+    }//x
+packet 
+charz {} 	 // trailing space ")).
+Eval vm_compute in ("<<<M1116>>>" ++ check (runes_of_ascii "//x
 options {
-}
-
-MetaData A {
-    int8 msg_type,
-}")).
-Eval vm_compute in ("<<<M1154>>>" ++ check (runes_of_ascii "packet MetaDataX
-{repeat tag
-    i64_
-,@calculatedFrom(
-    ""packet"")
+    pack = ""{,}"" ; asx = 65535 ; u
+= zchar[ 007 ] ;
     // trailing space 
-    Packet	`tab	here`
-    , }")).
-Eval vm_compute in ("<<<M3325>>>" ++ check (runes_of_ascii "root packet matchKey { zchar[ 3 ]
-// c
-pack @calculatedFrom( ""a	b"" ) `doc` , } options { } MetaData A { int8 msg_type , }")).
-Eval vm_compute in ("<<<M3357>>>" ++ check (runes_of_ascii "root packet matchKey { zchar[ 3 ] pack @calculatedFrom( ""a	b"" ) `doc` , } options { } MetaData A { int8 msg_type ,
-// c
+    i8i8
+=char[]
+As //x
+=' ' } // packet A { u8 x, }")).
+Eval vm_compute in ("<<<M4001>>>" ++ check (runes_of_ascii "MetaData Z9_ {
+
+}packet
+lengthOf	{  @tag(
+00
+
+)
+    u32 
+trueish , // trailing space 
+		repeat
+string
+
+roots 
+`doc` ,
+    }	// " ++ [128512]%N ++ runes_of_ascii " emoji")).
+Eval vm_compute in ("<<<M12>>>" ++ check (runes_of_ascii "packet
+    charz //
+{ @rightPad( '0')
+repeat
+    //x
+    Packet//x
+msg_type `" ++ [233]%N ++ runes_of_ascii "`	, } options {repeatCount
+= false falsey  = int64
 }")).
-Eval vm_compute in ("<<<M1480>>>" ++ check (runes_of_ascii "
+Eval vm_compute in ("<<<M3547>>>" ++ check (runes_of_ascii "packet  B
+{
+    u8
+a
+
+    ,
+}root
+    packet P {
+
+u8 K
+
+,
+	u64
+L
+
+@lengthOf(	Body ) ,	match
+K 
+as
+Body{
+	1
+:
+
+B,} 
+,
+}
+")).
+Eval vm_compute in ("<<<M1450>>>" ++ check (runes_of_ascii "
 packet
     falsey { Header@calculatedFrom(""packet""  ) , char[
-    0123456789 ] pa<cketx
+    0123456789 options packetx
     , } // `tick` ""quote"" 'q'")).
-Eval vm_compute in ("<<<M4080>>>" ++ check (runes_of_ascii "packet A {
-    Inner {
-        u8 x `
-        `,
-        Deep {
-            u8 y `
-            `,
-        },
-    },
-}")).
-Eval vm_compute in ("<<<M4523>>>" ++ check (runes_of_ascii "packet a1 {
-}
-
-options {
-    MetaDataX = ""`tick`""
-    uint8x = false;
-    f32a = zchar[00];
-}// `tick` ""quote"" 'q'")).
-Eval vm_compute in ("<<<M257>>>" ++ check (runes_of_ascii "options
-{ u // a // b
-=42 x_y_z
-    =' ' ;msg_type =
-    true ; u
-=10 ;  } options { zchar =
-uint8
-;  } // c")).
-Eval vm_compute in ("<<<M3665>>>" ++ check (runes_of_ascii "
-options
-
-    {
-
-} options {BodyLength
-
-    = 
-u16  Header
-
-    =
-	f64 ;u128
-= true
-
-; }  // a // 
-")).
-Eval vm_compute in ("<<<M1248>>>" ++ check (runes_of_ascii "root packet Packet { @rightPad ( ' '  )
-int8
-//
-// `tick` ""quote"" 'q'
-rootA // a // b
-, char[]i8i8 , } 	 ")).
-Eval vm_compute in ("<<<M2997>>>" ++ check (runes_of_ascii "packet A {
-  match k as n {
-    [1, 22, ""c c"", 4, 5, ""f"", 7, 8, ""i"", 10, 11, ""l""] : B
-    2 : C
-  },
-}")).
-Eval vm_compute in ("<<<M4306>>>" ++ check (runes_of_ascii "packet o {
-    repeat Logon uint8x,
-}
-
-options {
-    asx = zchar[3]
-    // c
-    stringy = '\x00'
-}")).
-Eval vm_compute in ("<<<M2960>>>" ++ check (runes_of_ascii "packet A {
-  match k as n {
-    [""a"", ""bb"", 007, ""d"", ""e"", 66, ""g"", ""h"", 9] : B
-    2 : C
-  },
-}")).
-Eval vm_compute in ("<<<M128>>>" ++ check (runes_of_ascii "MetaData msg_type
-    { char[]
-    int
-    ,  char[ 255 ]
-o ,
-    // `tick` ""quote"" 'q'
-    }")).
-Eval vm_compute in ("<<<M2274>>>" ++ check (runes_of_ascii "options
-{ } options { BodyLength= u16 Header= f64 ; u128 string
-    true
-    ; } // a // b")).
-Eval vm_compute in ("<<<M2254>>>" ++ check (runes_of_ascii "options
-{ } options { BodyLength= u16 Header""\" ++ [233]%N ++ runes_of_ascii """ f64 ; u128 =
-    true
-    ; } // a // b")).
-Eval vm_compute in ("<<<M3293>>>" ++ check (runes_of_ascii "MetaData float { float64 charz `
-` , } root packet chars { @rightPad // c
-( '0' ) Foo , }")).
-Eval vm_compute in ("<<<M3504>>>" ++ check (runes_of_ascii "packet chars { } packet MetaDataX { @tag( 42 )
+Eval vm_compute in ("<<<M3319>>>" ++ check (runes_of_ascii "root packet matchKey {
 // c
-i16 string_ , repeat x `say ""hi""` , }")).
-Eval vm_compute in ("<<<M2304>>>" ++ check (runes_of_ascii "options
-{ } options { BodyLength= u16 Header= f64 ; u128 =
-    true
-    ; "" } // a // b")).
-Eval vm_compute in ("<<<M3247>>>" ++ check (runes_of_ascii "packet metadata { Logon { A `" ++ [28040; 24687; 31867; 22411]%N ++ runes_of_ascii "` , tag o , } , zchar len `// not a comment` , } // c
+zchar[ 3 ] pack @calculatedFrom( ""a	b"" ) `doc` , } options { } MetaData A { int8 msg_type , }")).
+Eval vm_compute in ("<<<M3351>>>" ++ check (runes_of_ascii "root packet matchKey { zchar[ 3 ] pack @calculatedFrom( ""a	b"" ) `doc` , } options { } MetaData A {
+// c
+int8 msg_type , }")).
+Eval vm_compute in ("<<<M4613>>>" ++ check (runes_of_ascii "packet
+
+A
+{ 
+match
+
+    k  as 
+n
+{ [
+    ""a""
+,
+	22	,
+
+""c c""
+    ,
+	4 
+,
+""e""  ,66	, ""g""
+,
+8
+
+]	:
+
+B , 2:
+C 
+} ,} ")).
+Eval vm_compute in ("<<<M1434>>>" ++ check (runes_of_ascii "
+packet
+    falsey { Header@calculatedFrom(""packet""  ) char[ ,
+    0123456789 ] packetx
+    , } // `tick` ""quote"" 'q'")).
+Eval vm_compute in ("<<<M4231>>>" ++ check (runes_of_ascii "
+packet
+// @lengthOf(
+
+// " ++ [128512]%N ++ runes_of_ascii " emoji
+
+	len
+{@calculatedFrom(
+    ""it's""
+
+    )
+    calculatedFrom
+    msg_type	,
+}
 ")).
-Eval vm_compute in ("<<<M2930>>>" ++ check (runes_of_ascii "packet A {
+Eval vm_compute in ("<<<M1402>>>" ++ check (runes_of_ascii "
+packet
+     { Header@calculatedFrom(""packet""  ) , char[
+    0123456789 ] packetx
+    , } // `tick` ""quote"" 'q'")).
+Eval vm_compute in ("<<<M1026>>>" ++ check (runes_of_ascii "packet
+// " ++ [128512]%N ++ runes_of_ascii " emoji
+// @lengthOf(
+Header
+    {	}
+MetaData
+Packet {
+uint64 As `say ""hi""`,	}
+// trailing space 
+")).
+Eval vm_compute in ("<<<M440>>>" ++ check (runes_of_ascii "// `tick` ""quote"" 'q'
+packet
+    trueish {
+    @lengthOf(
+MetaDataX ) uint8x	@calculatedFrom(""a\""b""  ) ,}")).
+Eval vm_compute in ("<<<M1058>>>" ++ check (runes_of_ascii "options {
+    } packet As {f32 int @calculatedFrom(""{,}"")
+, u8 packetx ,u128 len, } packet options1 {}")).
+Eval vm_compute in ("<<<M1653>>>" ++ check (runes_of_ascii "packet
+//	t
+// trailing space 
+_x {
+// packet A { u8 x, }
+// c
+char[
+3
+    ] u8x @lengthOf(
+u8x ) , ")).
+Eval vm_compute in ("<<<M4417>>>" ++ check (runes_of_ascii "packet chars {
+}
+
+packet MetaDataX {
+    @tag(42)
+    i16 string_,
+    repeat x `say ""hi""`,
+}
+// c")).
+Eval vm_compute in ("<<<M2372>>>" ++ check (runes_of_ascii "// c
+packet x { @lengthOf( metadata ) repeat lengthOf
+,a1{
+trueish	,// c
+repeat//	t
+MetaDataX ")).
+Eval vm_compute in ("<<<M3721>>>" ++ check (runes_of_ascii "options  {
+
+}
+options
+	{BodyLength
+
+=
+u16 
+Header  =
+f64
+;u128=true
+	;  }	// a // b@leftpad
+")).
+Eval vm_compute in ("<<<M4368>>>" ++ check (runes_of_ascii "
+MetaData
+
+body{
+i64 pack  `it's` ,} packet  stringy{ 
+// c
+    int16	calculatedFrom,	}
+")).
+Eval vm_compute in ("<<<M2962>>>" ++ check (runes_of_ascii "packet A {
   match k as n {
-    [""a"", 22, ""c c"", 4, ""e"", 66, ""g""] : B
+    [1, 22, 007, 4, 5, 66, 7, 8, 9, 10] : B,
     2 : C
   },
 }")).
-Eval vm_compute in ("<<<M3243>>>" ++ check (runes_of_ascii "packet metadata { Logon { A `" ++ [28040; 24687; 31867; 22411]%N ++ runes_of_ascii "` , tag o , } , zchar len `// not a comment` // c
-, }")).
-Eval vm_compute in ("<<<M3431>>>" ++ check (runes_of_ascii "packet o // c
-{ repeat Logon uint8x , } options { asx = zchar[ 3 ] stringy = '\x00' }")).
-Eval vm_compute in ("<<<M3463>>>" ++ check (runes_of_ascii "packet o { repeat Logon uint8x , } options { asx = zchar[ 3 ] stringy = '\x00' // c
-}")).
-Eval vm_compute in ("<<<M2928>>>" ++ check (runes_of_ascii "packet A {
+Eval vm_compute in ("<<<M3299>>>" ++ check (runes_of_ascii "MetaData float { float64 charz `
+` , } root packet chars { @rightPad ( '0' ) // c
+Foo , }")).
+Eval vm_compute in ("<<<M3510>>>" ++ check (runes_of_ascii "packet chars { } packet MetaDataX { @tag( 42 ) i16 string_ ,
+// c
+repeat x `say ""hi""` , }")).
+Eval vm_compute in ("<<<M2963>>>" ++ check (runes_of_ascii "packet A {
   match k as n {
-    [1, ""bb"", 007, ""d"", 5, ""f"", 7] : B
+    [1, 22, 007, 4, 5, 66, 7, 8, 9, 10] : B
     2 : C
   },
 }")).
-Eval vm_compute in ("<<<M3408>>>" ++ check (runes_of_ascii "MetaData body { i64 pack `it's` , } // c
-packet stringy { int16 calculatedFrom , }")).
+Eval vm_compute in ("<<<M519>>>" ++ check (runes_of_ascii "options  { Logon =char[0];} packet chars {
+u8 u  `u8 x,` ,	} options
+{ metadata= 0	}
+")).
+Eval vm_compute in ("<<<M3218>>>" ++ check (runes_of_ascii "packet metadata {
+// c
+Logon { A `" ++ [28040; 24687; 31867; 22411]%N ++ runes_of_ascii "` , tag o , } , zchar len `// not a comment` , }")).
+Eval vm_compute in ("<<<M4585>>>" ++ check (runes_of_ascii "
+packet x {
+    @rightPad 
+    // c
+    () 
+repeat
+    roots
+
+Logon`doc`
+
+    ,	}
+
+")).
+Eval vm_compute in ("<<<M3441>>>" ++ check (runes_of_ascii "packet o { repeat Logon uint8x , // c
+} options { asx = zchar[ 3 ] stringy = '\x00' }")).
+Eval vm_compute in ("<<<M2927>>>" ++ check (runes_of_ascii "packet A {
+  match k as n {
+    [1, ""bb"", 007, ""d"", 5, ""f"", 7] : B,
+    2 : C
+  },
+}")).
+Eval vm_compute in ("<<<M381>>>" ++ check (runes_of_ascii "/// triple
+MetaData zchar // " ++ [128512]%N ++ runes_of_ascii " emoji
+{ int32 pack
+// trailing space 
+//	t
+,
+    }
+")).
+Eval vm_compute in ("<<<M3416>>>" ++ check (runes_of_ascii "MetaData body { i64 pack `it's` , } packet stringy { int16 // c
+calculatedFrom , }")).
 Eval vm_compute in ("<<<M1526>>>" ++ check (runes_of_ascii "packet
 //	t
 // trailing space 
@@ -2743,145 +2649,109 @@ _x {
 char[
 3
     ] u8x")).
-Eval vm_compute in ("<<<M2903>>>" ++ check (runes_of_ascii "packet A {
+Eval vm_compute in ("<<<M1234>>>" ++ check (runes_of_ascii "//
+options{charz
+= ""1"" trueish = """" ;  asx =
+'0'i8i8 //	t
+=
+    ""it's""	;  }")).
+Eval vm_compute in ("<<<M1231>>>" ++ check (runes_of_ascii "options	{zchar = 10 As
+= u32// packet A { u8 x, }
+; A= ""a\\"" // " ++ [128512]%N ++ runes_of_ascii " emoji
+}
+")).
+Eval vm_compute in ("<<<M3183>>>" ++ check (runes_of_ascii "packet A {
+    match k as n {
+        1 : B // c
+        , // d
+    },
+}")).
+Eval vm_compute in ("<<<M1837>>>" ++ check (runes_of_ascii "options { trueish = ""`tick`"" ; string_= """ ++ [233]%N ++ runes_of_ascii "t" ++ [233]%N ++ runes_of_ascii """
+    // c
+    } root
+   ")).
+Eval vm_compute in ("<<<M4121>>>" ++ check (runes_of_ascii "options {
+    msg_type = 42;
+    metadata = """";
+    matchKey = u8
+}")).
+Eval vm_compute in ("<<<M2865>>>" ++ check (runes_of_ascii "packet A {
   match k as n {
-    [""a"", 22, ""c c"", 4, ""e""] : B,
+    [""a"", ""bb""] : B
     2 : C
   },
 }")).
-Eval vm_compute in ("<<<M2158>>>" ++ check (runes_of_ascii "options{
-_x
-= true
-} options
-{ o	= /// triple
-false
-    ; chars
-= ""\n"" }")).
-Eval vm_compute in ("<<<M4507>>>" ++ check (runes_of_ascii "packet 
-A{match
-	k
-as
-n{ [	""a"" ,22 
-, ""c c"" ]
-	:B
-
-,2 :
-
-    C }
-,} ")).
-Eval vm_compute in ("<<<M3995>>>" ++ check (runes_of_ascii "packet A {
-    B b `
-    `,
-    B `
-    `,
-    repeat B bs `
-    `,
+Eval vm_compute in ("<<<M2869>>>" ++ check (runes_of_ascii "packet A {
+  match k as n {
+    [""a"", 22] : B
+    2 : C
+  },
 }")).
-Eval vm_compute in ("<<<M2935>>>" ++ check (runes_of_ascii "packet A { Inner { match k as n { [1,22,007,4,5,66,7] : B, }, }, }")).
-Eval vm_compute in ("<<<M158>>>" ++ check (runes_of_ascii "options { x_y_z =
-true;a1 = true ;
-options1  =
-    true  ; }
-")).
-Eval vm_compute in ("<<<M481>>>" ++ check (runes_of_ascii "MetaData x_y_z{ i8 //
-leftPad
-    , string
-body `" ++ [28040; 24687; 31867; 22411]%N ++ runes_of_ascii "` , }
-
-")).
-Eval vm_compute in ("<<<M3873>>>" ++ check (runes_of_ascii "root
-
-packet
-
-    A	{ u8 x
-`a
-    b
-  c`
-    ,
-
-    }
-
-")).
-Eval vm_compute in ("<<<M3383>>>" ++ check (runes_of_ascii "packet x { @rightPad ( ) repeat roots Logon `doc` // c
-, }")).
-Eval vm_compute in ("<<<M1047>>>" ++ check (runes_of_ascii "options
-{ stringy =  7;crc = ""x y"";}
-MetaData f32a{ }
-")).
-Eval vm_compute in ("<<<M3162>>>" ++ check (runes_of_ascii "// a
-MetaData M {} // b
-// c
-MetaData N {} // d
-// e")).
+Eval vm_compute in ("<<<M3175>>>" ++ check (runes_of_ascii "packet A { @leftPad() char[4] x, @rightPad( ) zchar[2] y, }")).
+Eval vm_compute in ("<<<M3375>>>" ++ check (runes_of_ascii "packet x { @rightPad ( ) // c
+repeat roots Logon `doc` , }")).
+Eval vm_compute in ("<<<M2345>>>" ++ check (runes_of_ascii "// c
+packet x { @lengthOf( metadata ) repeat lengthOf
+,")).
+Eval vm_compute in ("<<<M2824>>>" ++ check (runes_of_ascii "zchar[ i64 true i32 options MetaData @tag( as true [")).
 Eval vm_compute in ("<<<M288>>>" ++ check (runes_of_ascii "options { leftPad //	t
 = //	t
 """ ++ [28040; 24687]%N ++ runes_of_ascii """ } // " ++ [128512]%N ++ runes_of_ascii " emoji")).
-Eval vm_compute in ("<<<M2847>>>" ++ check (runes_of_ascii "zchar[ i64 repeat ) false ) char[ repeat char[")).
-Eval vm_compute in ("<<<M1244>>>" ++ check (runes_of_ascii "MetaData msg_type { zchar[ 65535 ] pack
-,}
+Eval vm_compute in ("<<<M1146>>>" ++ check (runes_of_ascii "
+root packet  u128	{	char[ 007 ]MetaDataX
+,}")).
+Eval vm_compute in ("<<<M2353>>>" ++ check (runes_of_ascii "// c
+packet x { @lengthOf( metadata ) repeat")).
+Eval vm_compute in ("<<<M31>>>" ++ check (runes_of_ascii "root
+packet uint8x {}root packet  Pad
+{}")).
+Eval vm_compute in ("<<<M3197>>>" ++ check (runes_of_ascii "root packet u128 { chars // c
+`it's` , }")).
+Eval vm_compute in ("<<<M2655>>>" ++ check (runes_of_ascii "MetaData M { match k as n { 1 : B }, }")).
+Eval vm_compute in ("<<<M3048>>>" ++ check (runes_of_ascii "root packet A {
+    u8 x `tab
+	x`,
+}")).
+Eval vm_compute in ("<<<M459>>>" ++ check (runes_of_ascii "  MetaData a1 {
+    u64 packetx ,}")).
+Eval vm_compute in ("<<<M2828>>>" ++ check (runes_of_ascii "@calculatedFrom( x_y_z { """" @tag(")).
+Eval vm_compute in ("<<<M1202>>>" ++ check (runes_of_ascii "options
+{ lengthOf = false ; }
 ")).
-Eval vm_compute in ("<<<M3049>>>" ++ check (runes_of_ascii "options {
-    a = ""x\
-y"";
-    b = ""x\
-y""
+Eval vm_compute in ("<<<M3092>>>" ++ check (runes_of_ascii "packet A {
+ u8 x `d" ++ [8202]%N ++ runes_of_ascii "`, // c" ++ [8202]%N ++ runes_of_ascii "
 }")).
-Eval vm_compute in ("<<<M3192>>>" ++ check (runes_of_ascii "root packet
-// c
-u128 { chars `it's` , }")).
-Eval vm_compute in ("<<<M2560>>>" ++ check (runes_of_ascii "packet A { repeat u8 x @lengthOf(y), }")).
-Eval vm_compute in ("<<<M2787>>>" ++ check ([11; 65533]%N ++ runes_of_ascii "7" ++ [65533; 442; 12]%N ++ runes_of_ascii "r" ++ [951]%N ++ runes_of_ascii "{
-7" ++ [65533]%N ++ runes_of_ascii "	" ++ [65533]%N ++ runes_of_ascii "T" ++ [65533; 65533]%N ++ runes_of_ascii "+" ++ [65533]%N ++ runes_of_ascii "U" ++ [65533; 65533]%N ++ runes_of_ascii "Z" ++ [65533; 65533]%N ++ runes_of_ascii "?le" ++ [2015; 30]%N ++ runes_of_ascii "e?Ye" ++ [65533]%N ++ runes_of_ascii "=")).
-Eval vm_compute in ("<<<M4066>>>" ++ check (runes_of_ascii "packet pack {
-    int64 options1,
-}")).
-Eval vm_compute in ("<<<M2601>>>" ++ check (runes_of_ascii "packet A { B { @tag(1) u8 x, }, }")).
-Eval vm_compute in ("<<<M3772>>>" ++ check (runes_of_ascii "packet A {
-    x @lengthOf(y),
-}")).
-Eval vm_compute in ("<<<M3062>>>" ++ check (runes_of_ascii "packet A {
- u8 x `d `, // c 
-}")).
-Eval vm_compute in ("<<<M4518>>>" ++ check (runes_of_ascii "MetaData
+Eval vm_compute in ("<<<M2113>>>" ++ check (runes_of_ascii "options{
+_x
+= true
+} options")).
+Eval vm_compute in ("<<<M3878>>>" ++ check (runes_of_ascii "
 
-roots {
-u	Logon, }")).
-Eval vm_compute in ("<<<M3037>>>" ++ check (runes_of_ascii "packet A {
-    u8 x `
-x`,
-}")).
-Eval vm_compute in ("<<<M2622>>>" ++ check (runes_of_ascii "packet A { @tag() u8 x, }")).
-Eval vm_compute in ("<<<M4183>>>" ++ check (runes_of_ascii "
-packet
-	A{ }
-    // c" ++ [8239]%N)).
-Eval vm_compute in ("<<<M2575>>>" ++ check (runes_of_ascii "packet A { x y `d`, }")).
-Eval vm_compute in ("<<<M4044>>>" ++ check (runes_of_ascii "
-packet 
-i64_ 
-{ }
-
-")).
-Eval vm_compute in ("<<<M3473>>>" ++ check (runes_of_ascii "MetaData
-// c
-o { }")).
-Eval vm_compute in ("<<<M3081>>>" ++ check (runes_of_ascii "// c" ++ [5760]%N ++ runes_of_ascii "
+  MetaData
+	f32a{A x
+, }")).
+Eval vm_compute in ("<<<M2703>>>" ++ check (runes_of_ascii "s>z""[<H>6@7M*]R*[1m;4X~)`")).
+Eval vm_compute in ("<<<M2701>>>" ++ check (runes_of_ascii "zchar[ float32 ' ' { '0'")).
+Eval vm_compute in ("<<<M4092>>>" ++ check (runes_of_ascii "
+packet  A	{
+x
+`d`,	}")).
+Eval vm_compute in ("<<<M2698>>>" ++ check ([65533]%N ++ runes_of_ascii "#" ++ [3; 7]%N ++ runes_of_ascii ">" ++ [65533]%N ++ runes_of_ascii "iS" ++ [22; 65533; 65533; 65533; 65533; 65533]%N ++ runes_of_ascii "UsV" ++ [24; 65533; 65533]%N)).
+Eval vm_compute in ("<<<M2819>>>" ++ check (runes_of_ascii "uint64 , options1 (")).
+Eval vm_compute in ("<<<M3076>>>" ++ check (runes_of_ascii "// c" ++ [133]%N ++ runes_of_ascii "
 packet A {
 }")).
-Eval vm_compute in ("<<<M887>>>" ++ check (runes_of_ascii "  
-// @lengthOf(
-")).
-Eval vm_compute in ("<<<M4358>>>" ++ check (runes_of_ascii "options
-{
-    }
-")).
+Eval vm_compute in ("<<<M860>>>" ++ check (runes_of_ascii "packet zchar
+{ }")).
+Eval vm_compute in ("<<<M4173>>>" ++ check (runes_of_ascii "packet Header {
+}")).
 Eval vm_compute in ("<<<M640>>>" ++ check (runes_of_ascii " // @lengthOf(")).
-Eval vm_compute in ("<<<M2844>>>" ++ check ([65533; 1256; 65533; 0; 65533; 7; 65533]%N ++ runes_of_ascii "1" ++ [16]%N ++ runes_of_ascii "wI" ++ [4]%N)).
-Eval vm_compute in ("<<<M2481>>>" ++ check (runes_of_ascii "@rightPad")).
-Eval vm_compute in ("<<<M2435>>>" ++ check (runes_of_ascii "zchar [")).
-Eval vm_compute in ("<<<M2744>>>" ++ check ([65533]%N ++ runes_of_ascii ")i}" ++ [65533]%N ++ runes_of_ascii ")")).
-Eval vm_compute in ("<<<M3074>>>" ++ check (runes_of_ascii "// c" ++ [133]%N)).
-Eval vm_compute in ("<<<M2526>>>" ++ check (runes_of_ascii "12ab")).
-Eval vm_compute in ("<<<M2530>>>" ++ check (runes_of_ascii "1.5")).
-Eval vm_compute in ("<<<M2536>>>" ++ check (runes_of_ascii "__")).
-Eval vm_compute in ("<<<M111>>>" ++ check (@nil rune)).
+Eval vm_compute in ("<<<M2653>>>" ++ check (runes_of_ascii "MetaData { }")).
+Eval vm_compute in ("<<<M2483>>>" ++ check (runes_of_ascii "@leftPadx")).
+Eval vm_compute in ("<<<M2464>>>" ++ check (runes_of_ascii "repeats")).
+Eval vm_compute in ("<<<M2427>>>" ++ check (runes_of_ascii "char[")).
+Eval vm_compute in ("<<<M3114>>>" ++ check (runes_of_ascii "// c" ++ [11]%N)).
+Eval vm_compute in ("<<<M2693>>>" ++ check (runes_of_ascii "char")).
+Eval vm_compute in ("<<<M2673>>>" ++ check (runes_of_ascii "{ }")).
+Eval vm_compute in ("<<<M14>>>" ++ check (runes_of_ascii "
+")).
